@@ -67,8 +67,24 @@ type z =
 | Zpos of positive
 | Zneg of positive
 
+(** val eqb : bool -> bool -> bool **)
+
+let eqb b1 b2 =
+  if b1 then b2 else if b2 then false else true
+
 module Nat =
  struct
+  (** val eqb : nat -> nat -> bool **)
+
+  let rec eqb n0 m =
+    match n0 with
+    | O -> (match m with
+            | O -> true
+            | S _ -> false)
+    | S n' -> (match m with
+               | O -> false
+               | S m' -> eqb n' m')
+
   (** val min : nat -> nat -> nat **)
 
   let rec min n0 m =
@@ -155,20 +171,6 @@ module Pos =
   | XI n' -> f (iter f (iter f x n') n')
   | XO n' -> iter f (iter f x n') n'
   | XH -> f x
-
-  (** val div2 : positive -> positive **)
-
-  let div2 = function
-  | XI p0 -> p0
-  | XO p0 -> p0
-  | XH -> XH
-
-  (** val div2_up : positive -> positive **)
-
-  let div2_up = function
-  | XI p0 -> succ p0
-  | XO p0 -> p0
-  | XH -> XH
 
   (** val compare_cont : comparison -> positive -> positive -> comparison **)
 
@@ -273,6 +275,20 @@ module Pos =
              | XO _ -> Npos XH
              | _ -> N0)
 
+  (** val testbit : positive -> n -> bool **)
+
+  let rec testbit p n0 =
+    match p with
+    | XI p0 -> (match n0 with
+                | N0 -> true
+                | Npos n1 -> testbit p0 (pred_N n1))
+    | XO p0 -> (match n0 with
+                | N0 -> false
+                | Npos n1 -> testbit p0 (pred_N n1))
+    | XH -> (match n0 with
+             | N0 -> true
+             | Npos _ -> false)
+
   (** val iter_op : ('a1 -> 'a1 -> 'a1) -> positive -> 'a1 -> 'a1 **)
 
   let rec iter_op op p a =
@@ -310,15 +326,6 @@ module N =
                  | N0 -> n0
                  | Npos q -> Npos (Pos.coq_lor p q))
 
-  (** val coq_land : n -> n -> n **)
-
-  let coq_land n0 m =
-    match n0 with
-    | N0 -> N0
-    | Npos p -> (match m with
-                 | N0 -> N0
-                 | Npos q -> Pos.coq_land p q)
-
   (** val ldiff : n -> n -> n **)
 
   let ldiff n0 m =
@@ -327,6 +334,13 @@ module N =
     | Npos p -> (match m with
                  | N0 -> n0
                  | Npos q -> Pos.ldiff p q)
+
+  (** val testbit : n -> n -> bool **)
+
+  let testbit a n0 =
+    match a with
+    | N0 -> false
+    | Npos p -> Pos.testbit p n0
  end
 
 module Z =
@@ -491,6 +505,13 @@ module Z =
                  | Zneg q -> Pos.eqb p q
                  | _ -> false)
 
+  (** val max : z -> z -> z **)
+
+  let max n0 m =
+    match compare n0 m with
+    | Lt -> m
+    | _ -> n0
+
   (** val min : z -> z -> z **)
 
   let min n0 m =
@@ -579,43 +600,16 @@ module Z =
                | XO _ -> false
                | _ -> true)
 
-  (** val div2 : z -> z **)
+  (** val testbit : z -> z -> bool **)
 
-  let div2 = function
-  | Z0 -> Z0
-  | Zpos p -> (match p with
-               | XH -> Z0
-               | _ -> Zpos (Pos.div2 p))
-  | Zneg p -> Zneg (Pos.div2_up p)
-
-  (** val shiftl : z -> z -> z **)
-
-  let shiftl a = function
-  | Z0 -> a
-  | Zpos p -> Pos.iter (mul (Zpos (XO XH))) a p
-  | Zneg p -> Pos.iter div2 a p
-
-  (** val shiftr : z -> z -> z **)
-
-  let shiftr a n0 =
-    shiftl a (opp n0)
-
-  (** val coq_lor : z -> z -> z **)
-
-  let coq_lor a b =
-    match a with
-    | Z0 -> b
-    | Zpos a0 ->
-      (match b with
-       | Z0 -> a
-       | Zpos b0 -> Zpos (Pos.coq_lor a0 b0)
-       | Zneg b0 -> Zneg (N.succ_pos (N.ldiff (Pos.pred_N b0) (Npos a0))))
-    | Zneg a0 ->
-      (match b with
-       | Z0 -> a
-       | Zpos b0 -> Zneg (N.succ_pos (N.ldiff (Pos.pred_N a0) (Npos b0)))
-       | Zneg b0 ->
-         Zneg (N.succ_pos (N.coq_land (Pos.pred_N a0) (Pos.pred_N b0))))
+  let testbit a = function
+  | Z0 -> odd a
+  | Zpos p ->
+    (match a with
+     | Z0 -> false
+     | Zpos a0 -> Pos.testbit a0 (Npos p)
+     | Zneg a0 -> negb (N.testbit (Pos.pred_N a0) (Npos p)))
+  | Zneg _ -> false
 
   (** val coq_land : z -> z -> z **)
 
@@ -640,28 +634,72 @@ module Z =
     pred (opp a)
  end
 
-(** val hd : 'a1 -> 'a1 list -> 'a1 **)
-
-let hd default = function
-| [] -> default
-| x :: _ -> x
-
 (** val tl : 'a1 list -> 'a1 list **)
 
 let tl = function
 | [] -> []
 | _ :: m -> m
 
-(** val nth : nat -> 'a1 list -> 'a1 -> 'a1 **)
+(** val last : 'a1 list -> 'a1 -> 'a1 **)
 
-let rec nth n0 l default =
-  match n0 with
-  | O -> (match l with
-          | [] -> default
-          | x :: _ -> x)
-  | S m -> (match l with
-            | [] -> default
-            | _ :: t -> nth m t default)
+let rec last l d =
+  match l with
+  | [] -> d
+  | a :: l0 -> (match l0 with
+                | [] -> a
+                | _ :: _ -> last l0 d)
+
+(** val rev : 'a1 list -> 'a1 list **)
+
+let rec rev = function
+| [] -> []
+| x :: l' -> app (rev l') (x :: [])
+
+(** val concat : 'a1 list list -> 'a1 list **)
+
+let rec concat = function
+| [] -> []
+| x :: l0 -> app x (concat l0)
+
+(** val map : ('a1 -> 'a2) -> 'a1 list -> 'a2 list **)
+
+let rec map f = function
+| [] -> []
+| a :: t -> (f a) :: (map f t)
+
+(** val fold_right : ('a2 -> 'a1 -> 'a1) -> 'a1 -> 'a2 list -> 'a1 **)
+
+let rec fold_right f a0 = function
+| [] -> a0
+| b :: t -> f b (fold_right f a0 t)
+
+(** val existsb : ('a1 -> bool) -> 'a1 list -> bool **)
+
+let rec existsb f = function
+| [] -> false
+| a :: l0 -> (||) (f a) (existsb f l0)
+
+(** val forallb : ('a1 -> bool) -> 'a1 list -> bool **)
+
+let rec forallb f = function
+| [] -> true
+| a :: l0 -> (&&) (f a) (forallb f l0)
+
+(** val filter : ('a1 -> bool) -> 'a1 list -> 'a1 list **)
+
+let rec filter f = function
+| [] -> []
+| x :: l0 -> if f x then x :: (filter f l0) else filter f l0
+
+(** val combine : 'a1 list -> 'a2 list -> ('a1 * 'a2) list **)
+
+let rec combine l l' =
+  match l with
+  | [] -> []
+  | x :: tl0 ->
+    (match l' with
+     | [] -> []
+     | y :: tl' -> (x, y) :: (combine tl0 tl'))
 
 (** val firstn : nat -> 'a1 list -> 'a1 list **)
 
@@ -681,10 +719,11 @@ let rec skipn n0 l =
              | [] -> []
              | _ :: l0 -> skipn n1 l0)
 
-(** val uw : z -> z -> z **)
+(** val seq : nat -> nat -> nat list **)
 
-let uw bits x =
-  Z.modulo x (Z.pow (Zpos (XO XH)) bits)
+let rec seq start = function
+| O -> []
+| S len0 -> start :: (seq (S start) len0)
 
 (** val sw : z -> z -> z **)
 
@@ -693,36 +732,6 @@ let sw bits x =
     (Z.modulo (Z.add x (Z.pow (Zpos (XO XH)) (Z.sub bits (Zpos XH))))
       (Z.pow (Zpos (XO XH)) bits))
     (Z.pow (Zpos (XO XH)) (Z.sub bits (Zpos XH)))
-
-(** val set_vnum_loop : nat -> z -> z list **)
-
-let rec set_vnum_loop fuel num =
-  match fuel with
-  | O -> []
-  | S f ->
-    if Z.leb num Z0
-    then []
-    else let rem = Z.modulo num (Zpos (XO (XO (XO (XO (XO (XO (XO XH))))))))
-         in
-         let num' = Z.div num (Zpos (XO (XO (XO (XO (XO (XO (XO XH)))))))) in
-         if Z.ltb Z0 num'
-         then (Z.sub (Zpos (XI (XI (XI (XI (XI (XI (XI XH)))))))) rem) :: 
-                (set_vnum_loop f num')
-         else rem :: []
-
-(** val set_vnum64 : z -> z list **)
-
-let set_vnum64 v =
-  let num = sw (Zpos (XO (XO (XO (XO (XO (XO XH))))))) v in
-  if Z.eqb num Z0
-  then Z0 :: []
-  else set_vnum_loop (S (S (S (S (S (S (S (S (S (S O)))))))))) num
-
-(** val set_vnum32 : z -> z list **)
-
-let set_vnum32 v =
-  let num = sw (Zpos (XO (XO (XO (XO (XO XH)))))) v in
-  if Z.eqb num Z0 then Z0 :: [] else set_vnum_loop (S (S (S (S (S O))))) num
 
 (** val read_vnum_loop : z list -> z -> z -> nat -> (z * nat) option **)
 
@@ -748,746 +757,205 @@ let read_vnum buf =
 let iWNUMBUF_SIZE =
   Zpos (XO (XO (XO (XO (XO XH)))))
 
-(** val ascii2hex_tbl : z list **)
+(** val iWFSM_CUSTOM_HDR_DATA_OFFSET : z **)
 
-let ascii2hex_tbl =
-  Z0 :: (Z0 :: (Z0 :: (Z0 :: (Z0 :: (Z0 :: (Z0 :: (Z0 :: (Z0 :: (Z0 :: (Z0 :: (Z0 :: (Z0 :: (Z0 :: (Z0 :: (Z0 :: (Z0 :: (Z0 :: (Z0 :: (Z0 :: (Z0 :: (Z0 :: (Z0 :: (Z0 :: (Z0 :: (Z0 :: (Z0 :: (Z0 :: (Z0 :: (Z0 :: (Z0 :: (Z0 :: (Z0 :: (Z0 :: (Z0 :: (Z0 :: (Z0 :: (Z0 :: (Z0 :: (Z0 :: (Z0 :: (Z0 :: (Z0 :: (Z0 :: (Z0 :: (Z0 :: (Z0 :: (Z0 :: (Z0 :: ((Zpos
-    XH) :: ((Zpos (XO XH)) :: ((Zpos (XI XH)) :: ((Zpos (XO (XO
-    XH))) :: ((Zpos (XI (XO XH))) :: ((Zpos (XO (XI XH))) :: ((Zpos (XI (XI
-    XH))) :: ((Zpos (XO (XO (XO XH)))) :: ((Zpos (XI (XO (XO
-    XH)))) :: (Z0 :: (Z0 :: (Z0 :: (Z0 :: (Z0 :: (Z0 :: (Z0 :: ((Zpos (XO (XI
-    (XO XH)))) :: ((Zpos (XI (XI (XO XH)))) :: ((Zpos (XO (XO (XI
-    XH)))) :: ((Zpos (XI (XO (XI XH)))) :: ((Zpos (XO (XI (XI
-    XH)))) :: ((Zpos (XI (XI (XI
-    XH)))) :: (Z0 :: (Z0 :: (Z0 :: (Z0 :: (Z0 :: (Z0 :: (Z0 :: (Z0 :: (Z0 :: (Z0 :: (Z0 :: (Z0 :: (Z0 :: (Z0 :: (Z0 :: (Z0 :: (Z0 :: (Z0 :: (Z0 :: (Z0 :: (Z0 :: (Z0 :: (Z0 :: (Z0 :: (Z0 :: (Z0 :: ((Zpos
-    (XO (XI (XO XH)))) :: ((Zpos (XI (XI (XO XH)))) :: ((Zpos (XO (XO (XI
-    XH)))) :: ((Zpos (XI (XO (XI XH)))) :: ((Zpos (XO (XI (XI
-    XH)))) :: ((Zpos (XI (XI (XI
-    XH)))) :: (Z0 :: (Z0 :: (Z0 :: (Z0 :: (Z0 :: (Z0 :: (Z0 :: (Z0 :: (Z0 :: (Z0 :: (Z0 :: (Z0 :: (Z0 :: (Z0 :: (Z0 :: (Z0 :: (Z0 :: (Z0 :: (Z0 :: (Z0 :: (Z0 :: (Z0 :: (Z0 :: (Z0 :: (Z0 :: (Z0 :: (Z0 :: (Z0 :: (Z0 :: (Z0 :: (Z0 :: (Z0 :: (Z0 :: (Z0 :: (Z0 :: (Z0 :: (Z0 :: (Z0 :: (Z0 :: (Z0 :: (Z0 :: (Z0 :: (Z0 :: (Z0 :: (Z0 :: (Z0 :: (Z0 :: (Z0 :: (Z0 :: (Z0 :: (Z0 :: (Z0 :: (Z0 :: (Z0 :: (Z0 :: (Z0 :: (Z0 :: (Z0 :: (Z0 :: (Z0 :: (Z0 :: (Z0 :: (Z0 :: (Z0 :: (Z0 :: (Z0 :: (Z0 :: (Z0 :: (Z0 :: (Z0 :: (Z0 :: (Z0 :: (Z0 :: (Z0 :: (Z0 :: (Z0 :: (Z0 :: (Z0 :: (Z0 :: (Z0 :: (Z0 :: (Z0 :: (Z0 :: (Z0 :: (Z0 :: (Z0 :: (Z0 :: (Z0 :: (Z0 :: (Z0 :: (Z0 :: (Z0 :: (Z0 :: (Z0 :: (Z0 :: (Z0 :: (Z0 :: (Z0 :: (Z0 :: (Z0 :: (Z0 :: (Z0 :: (Z0 :: (Z0 :: (Z0 :: (Z0 :: (Z0 :: (Z0 :: (Z0 :: (Z0 :: (Z0 :: (Z0 :: (Z0 :: (Z0 :: (Z0 :: (Z0 :: (Z0 :: (Z0 :: (Z0 :: (Z0 :: (Z0 :: (Z0 :: (Z0 :: (Z0 :: (Z0 :: (Z0 :: (Z0 :: (Z0 :: (Z0 :: (Z0 :: (Z0 :: (Z0 :: (Z0 :: (Z0 :: (Z0 :: (Z0 :: (Z0 :: (Z0 :: (Z0 :: (Z0 :: (Z0 :: (Z0 :: (Z0 :: (Z0 :: (Z0 :: (Z0 :: (Z0 :: (Z0 :: (Z0 :: (Z0 :: (Z0 :: (Z0 :: (Z0 :: [])))))))))))))))))))))))))))))))))))))))))))))))))))))))))))))))))))))))))))))))))))))))))))))))))))))))))))))))))))))))))))))))))))))))))))))))))))))))))))))))))))))))))))))))))))))))))))))))))))))))))))))))))))))))))))))))))))))))))))))))))))))))))))))))
+let iWFSM_CUSTOM_HDR_DATA_OFFSET =
+  Zpos (XI (XO (XI (XI (XO (XO XH))))))
+
+(** val iWKV_MAGIC : z **)
+
+let iWKV_MAGIC =
+  Zpos (XO (XI (XI (XO (XI (XI (XI (XO (XI (XI (XO (XI (XO (XI (XI (XO (XI
+    (XI (XI (XO (XI (XI (XI (XO (XI (XO (XO (XI (XO (XI
+    XH))))))))))))))))))))))))))))))
+
+(** val iWDB_MAGIC : z **)
+
+let iWDB_MAGIC =
+  Zpos (XO (XI (XO (XO (XO (XI (XI (XO (XO (XO (XI (XO (XO (XI (XI (XO (XI
+    (XI (XI (XO (XI (XI (XI (XO (XI (XO (XO (XI (XO (XI
+    XH))))))))))))))))))))))))))))))
+
+(** val iWKV_FSM_BPOW : z **)
+
+let iWKV_FSM_BPOW =
+  Zpos (XI (XI XH))
+
+(** val kVHDRSZ : z **)
+
+let kVHDRSZ =
+  Zpos (XI (XI (XI (XI (XI (XI (XI XH)))))))
 
 (** val pREFIX_KEY_LEN_V2 : z **)
 
 let pREFIX_KEY_LEN_V2 =
   Zpos (XI (XI (XO (XO (XI (XI XH))))))
 
+(** val sLEVELS : z **)
+
+let sLEVELS =
+  Zpos (XO (XO (XO (XI XH))))
+
+(** val sBLK_LKLEN : z **)
+
+let sBLK_LKLEN =
+  Zpos (XI (XI (XO (XO (XI (XI XH))))))
+
+(** val dB_SZ : z **)
+
+let dB_SZ =
+  Zpos (XO (XO (XO (XO (XO (XO (XO (XO XH))))))))
+
+(** val sBLK_SZ : z **)
+
+let sBLK_SZ =
+  Zpos (XO (XO (XO (XO (XO (XO (XO (XO XH))))))))
+
+(** val sBLK_PAGE_SBLK_NUM_V2 : z **)
+
+let sBLK_PAGE_SBLK_NUM_V2 =
+  Zpos (XO (XO (XO (XO XH))))
+
+(** val sBLK_PAGE_SZ_V2 : z **)
+
+let sBLK_PAGE_SZ_V2 =
+  Zpos (XO (XO (XO (XO (XO (XO (XO (XO (XO (XO (XO (XO XH))))))))))))
+
+(** val kVBLK_IDXNUM : z **)
+
+let kVBLK_IDXNUM =
+  Zpos (XO (XO (XO (XO (XO XH)))))
+
+(** val kVBLK_INISZPOW : z **)
+
+let kVBLK_INISZPOW =
+  Zpos (XI (XO (XO XH)))
+
+(** val kVBLK_HDRSZ : z **)
+
+let kVBLK_HDRSZ =
+  Zpos (XI XH)
+
+(** val sOFF_FLAGS_U1 : z **)
+
+let sOFF_FLAGS_U1 =
+  Z0
+
+(** val sOFF_LVL_U1 : z **)
+
+let sOFF_LVL_U1 =
+  Zpos XH
+
+(** val sOFF_LKL_U1 : z **)
+
+let sOFF_LKL_U1 =
+  Zpos (XO XH)
+
+(** val sOFF_PNUM_U1 : z **)
+
+let sOFF_PNUM_U1 =
+  Zpos (XI XH)
+
+(** val sOFF_P0_U4 : z **)
+
+let sOFF_P0_U4 =
+  Zpos (XO (XO XH))
+
+(** val sOFF_KBLK_U4 : z **)
+
+let sOFF_KBLK_U4 =
+  Zpos (XO (XO (XO XH)))
+
+(** val sOFF_PI0_U1 : z **)
+
+let sOFF_PI0_U1 =
+  Zpos (XO (XO (XI XH)))
+
+(** val sOFF_N0_U4 : z **)
+
+let sOFF_N0_U4 =
+  Zpos (XO (XO (XI (XI (XO XH)))))
+
+(** val sOFF_BPOS_U1_V2 : z **)
+
+let sOFF_BPOS_U1_V2 =
+  Zpos (XO (XO (XI (XI (XO (XO (XO XH)))))))
+
+(** val sOFF_LK_V2 : z **)
+
+let sOFF_LK_V2 =
+  Zpos (XI (XO (XI (XI (XO (XO (XO XH)))))))
+
+(** val dOFF_MAGIC_U4 : z **)
+
+let dOFF_MAGIC_U4 =
+  Z0
+
+(** val dOFF_DBFLG_U1 : z **)
+
+let dOFF_DBFLG_U1 =
+  Zpos (XO (XO XH))
+
+(** val dOFF_NEXTDB_U4 : z **)
+
+let dOFF_NEXTDB_U4 =
+  Zpos (XI (XO (XO XH)))
+
+(** val dOFF_P0_U4 : z **)
+
+let dOFF_P0_U4 =
+  Zpos (XI (XO (XI XH)))
+
+(** val dOFF_N0_U4 : z **)
+
+let dOFF_N0_U4 =
+  Zpos (XI (XO (XO (XO XH))))
+
+(** val dOFF_C0_U4 : z **)
+
+let dOFF_C0_U4 =
+  Zpos (XI (XO (XO (XO (XI (XI XH))))))
+
+(** val dOFF_METABLK_U4 : z **)
+
+let dOFF_METABLK_U4 =
+  Zpos (XI (XO (XO (XO (XI (XO (XI XH)))))))
+
+(** val dOFF_METABLKN_U4 : z **)
+
+let dOFF_METABLKN_U4 =
+  Zpos (XI (XO (XI (XO (XI (XO (XI XH)))))))
+
+(** val sBLK_FULL_LKEY : z **)
+
+let sBLK_FULL_LKEY =
+  Zpos XH
+
 (** val iW_VNUMBUFSZ : z **)
 
 let iW_VNUMBUFSZ =
   Zpos (XO (XI (XO XH)))
 
-(** val iW_VNUMSIZE : z -> z **)
+(** val iWDB_VNUM64_KEYS : z **)
 
-let iW_VNUMSIZE n0 =
-  if Z.eqb
-       (if Z.ltb (uw (Zpos (XO (XO (XO (XO (XO (XO XH))))))) n0) (Zpos (XO
-             (XO (XO (XO (XO (XO (XO XH))))))))
-        then Zpos XH
-        else Z0) Z0
-  then if Z.eqb
-            (if Z.ltb (uw (Zpos (XO (XO (XO (XO (XO (XO XH))))))) n0) (Zpos
-                  (XO (XO (XO (XO (XO (XO (XO (XO (XO (XO (XO (XO (XO (XO
-                  XH)))))))))))))))
-             then Zpos XH
-             else Z0) Z0
-       then if Z.eqb
-                 (if Z.ltb (uw (Zpos (XO (XO (XO (XO (XO (XO XH))))))) n0)
-                       (Zpos (XO (XO (XO (XO (XO (XO (XO (XO (XO (XO (XO (XO
-                       (XO (XO (XO (XO (XO (XO (XO (XO (XO
-                       XH))))))))))))))))))))))
-                  then Zpos XH
-                  else Z0) Z0
-            then if Z.eqb
-                      (if Z.ltb
-                            (uw (Zpos (XO (XO (XO (XO (XO (XO XH))))))) n0)
-                            (Zpos (XO (XO (XO (XO (XO (XO (XO (XO (XO (XO (XO
-                            (XO (XO (XO (XO (XO (XO (XO (XO (XO (XO (XO (XO
-                            (XO (XO (XO (XO (XO
-                            XH)))))))))))))))))))))))))))))
-                       then Zpos XH
-                       else Z0) Z0
-                 then if Z.eqb
-                           (if Z.ltb
-                                 (uw (Zpos (XO (XO (XO (XO (XO (XO XH)))))))
-                                   n0) (Zpos (XO (XO (XO (XO (XO (XO (XO (XO
-                                 (XO (XO (XO (XO (XO (XO (XO (XO (XO (XO (XO
-                                 (XO (XO (XO (XO (XO (XO (XO (XO (XO (XO (XO
-                                 (XO (XO (XO (XO (XO
-                                 XH))))))))))))))))))))))))))))))))))))
-                            then Zpos XH
-                            else Z0) Z0
-                      then if Z.eqb
-                                (if Z.ltb
-                                      (uw (Zpos (XO (XO (XO (XO (XO (XO
-                                        XH))))))) n0) (Zpos (XO (XO (XO (XO
-                                      (XO (XO (XO (XO (XO (XO (XO (XO (XO (XO
-                                      (XO (XO (XO (XO (XO (XO (XO (XO (XO (XO
-                                      (XO (XO (XO (XO (XO (XO (XO (XO (XO (XO
-                                      (XO (XO (XO (XO (XO (XO (XO (XO
-                                      XH)))))))))))))))))))))))))))))))))))))))))))
-                                 then Zpos XH
-                                 else Z0) Z0
-                           then if Z.eqb
-                                     (if Z.ltb
-                                           (uw (Zpos (XO (XO (XO (XO (XO (XO
-                                             XH))))))) n0) (Zpos (XO (XO (XO
-                                           (XO (XO (XO (XO (XO (XO (XO (XO
-                                           (XO (XO (XO (XO (XO (XO (XO (XO
-                                           (XO (XO (XO (XO (XO (XO (XO (XO
-                                           (XO (XO (XO (XO (XO (XO (XO (XO
-                                           (XO (XO (XO (XO (XO (XO (XO (XO
-                                           (XO (XO (XO (XO (XO (XO
-                                           XH))))))))))))))))))))))))))))))))))))))))))))))))))
-                                      then Zpos XH
-                                      else Z0) Z0
-                                then if Z.eqb
-                                          (if Z.ltb
-                                                (uw (Zpos (XO (XO (XO (XO (XO
-                                                  (XO XH))))))) n0) (Zpos (XO
-                                                (XO (XO (XO (XO (XO (XO (XO
-                                                (XO (XO (XO (XO (XO (XO (XO
-                                                (XO (XO (XO (XO (XO (XO (XO
-                                                (XO (XO (XO (XO (XO (XO (XO
-                                                (XO (XO (XO (XO (XO (XO (XO
-                                                (XO (XO (XO (XO (XO (XO (XO
-                                                (XO (XO (XO (XO (XO (XO (XO
-                                                (XO (XO (XO (XO (XO (XO
-                                                XH)))))))))))))))))))))))))))))))))))))))))))))))))))))))))
-                                           then Zpos XH
-                                           else Z0) Z0
-                                     then if Z.eqb
-                                               (if Z.ltb
-                                                     (uw (Zpos (XO (XO (XO
-                                                       (XO (XO (XO XH)))))))
-                                                       n0) (Zpos (XO (XO (XO
-                                                     (XO (XO (XO (XO (XO (XO
-                                                     (XO (XO (XO (XO (XO (XO
-                                                     (XO (XO (XO (XO (XO (XO
-                                                     (XO (XO (XO (XO (XO (XO
-                                                     (XO (XO (XO (XO (XO (XO
-                                                     (XO (XO (XO (XO (XO (XO
-                                                     (XO (XO (XO (XO (XO (XO
-                                                     (XO (XO (XO (XO (XO (XO
-                                                     (XO (XO (XO (XO (XO (XO
-                                                     (XO (XO (XO (XO (XO (XO
-                                                     XH))))))))))))))))))))))))))))))))))))))))))))))))))))))))))))))))
-                                                then Zpos XH
-                                                else Z0) Z0
-                                          then Zpos (XO (XI (XO XH)))
-                                          else Zpos (XI (XO (XO XH)))
-                                     else Zpos (XO (XO (XO XH)))
-                                else Zpos (XI (XI XH))
-                           else Zpos (XO (XI XH))
-                      else Zpos (XI (XO XH))
-                 else Zpos (XO (XO XH))
-            else Zpos (XI XH)
-       else Zpos (XO XH)
-  else Zpos XH
+let iWDB_VNUM64_KEYS =
+  Zpos (XO (XO (XO (XO (XO XH)))))
 
-(** val iW_VNUMSIZE32 : z -> z **)
+(** val iWDB_REALNUM_KEYS : z **)
 
-let iW_VNUMSIZE32 n0 =
-  if Z.eqb
-       (if Z.ltb (uw (Zpos (XO (XO (XO (XO (XO (XO XH))))))) n0) (Zpos (XO
-             (XO (XO (XO (XO (XO (XO XH))))))))
-        then Zpos XH
-        else Z0) Z0
-  then if Z.eqb
-            (if Z.ltb (uw (Zpos (XO (XO (XO (XO (XO (XO XH))))))) n0) (Zpos
-                  (XO (XO (XO (XO (XO (XO (XO (XO (XO (XO (XO (XO (XO (XO
-                  XH)))))))))))))))
-             then Zpos XH
-             else Z0) Z0
-       then if Z.eqb
-                 (if Z.ltb (uw (Zpos (XO (XO (XO (XO (XO (XO XH))))))) n0)
-                       (Zpos (XO (XO (XO (XO (XO (XO (XO (XO (XO (XO (XO (XO
-                       (XO (XO (XO (XO (XO (XO (XO (XO (XO
-                       XH))))))))))))))))))))))
-                  then Zpos XH
-                  else Z0) Z0
-            then if Z.eqb
-                      (if Z.ltb
-                            (uw (Zpos (XO (XO (XO (XO (XO (XO XH))))))) n0)
-                            (Zpos (XO (XO (XO (XO (XO (XO (XO (XO (XO (XO (XO
-                            (XO (XO (XO (XO (XO (XO (XO (XO (XO (XO (XO (XO
-                            (XO (XO (XO (XO (XO
-                            XH)))))))))))))))))))))))))))))
-                       then Zpos XH
-                       else Z0) Z0
-                 then Zpos (XI (XO XH))
-                 else Zpos (XO (XO XH))
-            else Zpos (XI XH)
-       else Zpos (XO XH)
-  else Zpos XH
+let iWDB_REALNUM_KEYS =
+  Zpos (XO (XO (XO (XO XH))))
 
-(** val iW_RANGES_OVERLAP : z -> z -> z -> z -> z **)
+(** val iWDB_COMPOUND_KEYS : z **)
 
-let iW_RANGES_OVERLAP s1 e1 s2 e2 =
-  if Z.eqb
-       (if Z.eqb
-             (if Z.eqb (if Z.gtb e1 s2 then Zpos XH else Z0) Z0
-              then Z0
-              else if Z.eqb (if Z.leb e1 e2 then Zpos XH else Z0) Z0
-                   then Z0
-                   else Zpos XH) Z0
-        then if Z.eqb
-                  (if Z.eqb (if Z.geb s1 s2 then Zpos XH else Z0) Z0
-                   then Z0
-                   else if Z.eqb (if Z.ltb s1 e2 then Zpos XH else Z0) Z0
-                        then Z0
-                        else Zpos XH) Z0
-             then Z0
-             else Zpos XH
-        else Zpos XH) Z0
-  then if Z.eqb
-            (if Z.eqb (if Z.leb s1 s2 then Zpos XH else Z0) Z0
-             then Z0
-             else if Z.eqb (if Z.geb e1 e2 then Zpos XH else Z0) Z0
-                  then Z0
-                  else Zpos XH) Z0
-       then Z0
-       else Zpos XH
-  else Zpos XH
+let iWDB_COMPOUND_KEYS =
+  Zpos (XO (XO (XO (XO (XO (XO XH))))))
 
-(** val iW_ROUNDUP : z -> z -> z **)
+(** val iWFSM_MAGICK : z **)
 
-let iW_ROUNDUP x v =
-  Z.coq_land
-    (uw (Zpos (XO (XO (XO (XO (XO (XO XH)))))))
-      (Z.sub (uw (Zpos (XO (XO (XO (XO (XO (XO XH))))))) (Z.add x v))
-        (uw (Zpos (XO (XO (XO (XO (XO (XO XH))))))) (Zpos XH))))
-    (uw (Zpos (XO (XO (XO (XO (XO (XO XH)))))))
-      (Z.lnot
-        (uw (Zpos (XO (XO (XO (XO (XO (XO XH)))))))
-          (Z.sub v (uw (Zpos (XO (XO (XO (XO (XO (XO XH))))))) (Zpos XH))))))
-
-(** val iW_ROUNDOWN : z -> z -> z **)
-
-let iW_ROUNDOWN x v =
-  uw (Zpos (XO (XO (XO (XO (XO (XO XH)))))))
-    (Z.sub x
-      (Z.coq_land x
-        (uw (Zpos (XO (XO (XO (XO (XO (XO XH)))))))
-          (Z.sub v (uw (Zpos (XO (XO (XO (XO (XO (XO XH))))))) (Zpos XH))))))
-
-type mem = { m_len : z; m_init : (z -> z); m_wr : (z * z) list }
-
-(** val rd_wr : (z * z) list -> (z -> z) -> z -> z **)
-
-let rec rd_wr w init i =
-  match w with
-  | [] -> init i
-  | p :: r -> let (j, x) = p in if Z.eqb j i then x else rd_wr r init i
-
-(** val inb : mem -> z -> bool **)
-
-let inb m i =
-  (&&) (Z.leb Z0 i) (Z.ltb i m.m_len)
-
-(** val rd : mem -> z -> z option **)
-
-let rd m i =
-  if inb m i then Some (rd_wr m.m_wr m.m_init i) else None
-
-(** val wr : mem -> z -> z -> mem option **)
-
-let wr m i x =
-  if inb m i
-  then Some { m_len = m.m_len; m_init = m.m_init; m_wr = ((i, x) :: m.m_wr) }
-  else None
-
-(** val peek : mem -> z -> z **)
-
-let peek m i =
-  rd_wr m.m_wr m.m_init i
-
-(** val shl1 : nat -> mem -> z -> mem option **)
-
-let rec shl1 n0 m dst =
-  match n0 with
-  | O -> Some m
-  | S k ->
-    (match rd m (Z.add dst (Zpos XH)) with
-     | Some x ->
-       (match wr m dst x with
-        | Some m' -> shl1 k m' (Z.add dst (Zpos XH))
-        | None -> None)
-     | None -> None)
-
-(** val itoa_loop :
-    nat -> z -> z -> z -> z -> z -> mem -> ((z * z) * mem) option **)
-
-let rec itoa_loop fuel ptr max ret p v m =
-  match fuel with
-  | O -> Some ((ret, p), m)
-  | S f ->
-    if Z.eqb v Z0
-    then Some ((ret, p), m)
-    else let ret0 = Z.add ret (Zpos XH) in
-         if Z.geb ret0 max
-         then if Z.eqb p ptr
-              then Some ((ret0, p), m)
-              else (match shl1 (Z.to_nat (Z.sub p ptr)) m ptr with
-                    | Some m1 ->
-                      (match wr m1 (Z.sub p (Zpos XH))
-                               (Z.add (Zpos (XO (XO (XO (XO (XI XH))))))
-                                 (Z.modulo v (Zpos (XO (XI (XO XH)))))) with
-                       | Some m2 ->
-                         itoa_loop f ptr max ret0 p
-                           (Z.div v (Zpos (XO (XI (XO XH))))) m2
-                       | None -> None)
-                    | None -> None)
-         else (match wr m p
-                       (Z.add (Zpos (XO (XO (XO (XO (XI XH))))))
-                         (Z.modulo v (Zpos (XO (XI (XO XH)))))) with
-               | Some m2 ->
-                 itoa_loop f ptr max ret0 (Z.add p (Zpos XH))
-                   (Z.div v (Zpos (XO (XI (XO XH))))) m2
-               | None -> None)
-
-(** val rev_loop : nat -> z -> z -> mem -> mem option **)
-
-let rec rev_loop fuel ptr p m =
-  match fuel with
-  | O -> Some m
-  | S f ->
-    if Z.gtb p ptr
-    then let p0 = Z.sub p (Zpos XH) in
-         (match rd m p0 with
-          | Some c ->
-            (match rd m ptr with
-             | Some d ->
-               (match wr m p0 d with
-                | Some m1 ->
-                  (match wr m1 ptr c with
-                   | Some m2 -> rev_loop f (Z.add ptr (Zpos XH)) p0 m2
-                   | None -> None)
-                | None -> None)
-             | None -> None)
-          | None -> None)
-    else Some m
-
-(** val int64_min_text : z list **)
-
-let int64_min_text =
-  (Zpos (XI (XO (XI (XI (XO XH)))))) :: ((Zpos (XI (XO (XO (XI (XI
-    XH)))))) :: ((Zpos (XO (XI (XO (XO (XI XH)))))) :: ((Zpos (XO (XI (XO (XO
-    (XI XH)))))) :: ((Zpos (XI (XI (XO (XO (XI XH)))))) :: ((Zpos (XI (XI (XO
-    (XO (XI XH)))))) :: ((Zpos (XI (XI (XI (XO (XI XH)))))) :: ((Zpos (XO (XI
-    (XO (XO (XI XH)))))) :: ((Zpos (XO (XO (XO (XO (XI XH)))))) :: ((Zpos (XI
-    (XI (XO (XO (XI XH)))))) :: ((Zpos (XO (XI (XI (XO (XI XH)))))) :: ((Zpos
-    (XO (XO (XO (XI (XI XH)))))) :: ((Zpos (XI (XO (XI (XO (XI
-    XH)))))) :: ((Zpos (XO (XO (XI (XO (XI XH)))))) :: ((Zpos (XI (XI (XI (XO
-    (XI XH)))))) :: ((Zpos (XI (XI (XI (XO (XI XH)))))) :: ((Zpos (XI (XO (XI
-    (XO (XI XH)))))) :: ((Zpos (XO (XO (XO (XI (XI XH)))))) :: ((Zpos (XO (XO
-    (XO (XO (XI XH)))))) :: ((Zpos (XO (XO (XO (XI (XI
-    XH)))))) :: [])))))))))))))))))))
-
-(** val wr_list : mem -> z -> z list -> mem option **)
-
-let rec wr_list m i = function
-| [] -> Some m
-| x :: r ->
-  (match wr m i x with
-   | Some m' -> wr_list m' (Z.add i (Zpos XH)) r
-   | None -> None)
-
-(** val itoa_digits : z -> mem -> z -> z -> z -> (z * mem) option **)
-
-let itoa_digits v m0 max ptr ret =
-  match itoa_loop (S (S (S (S (S (S (S (S (S (S (S (S (S (S (S (S (S (S (S (S
-          O)))))))))))))))))))) ptr max ret ptr v m0 with
-  | Some p0 ->
-    let (p1, m1) = p0 in
-    let (ret', p) = p1 in
-    (match rev_loop (S (S (S (S (S (S (S (S (S (S (S (S (S (S (S (S (S (S (S
-             (S O)))))))))))))))))))) ptr p m1 with
-     | Some m2 ->
-       (match wr m2 p Z0 with
-        | Some m3 -> Some (ret', m3)
-        | None -> None)
-     | None -> None)
-  | None -> None
-
-(** val itoa : z -> mem -> z -> (z * mem) option **)
-
-let itoa v m max =
-  if Z.ltb max (Zpos XH)
-  then Some (Z0, m)
-  else if Z.eqb v Z0
-       then if Z.geb (Zpos XH) max
-            then (match wr m Z0 Z0 with
-                  | Some m' -> Some ((Zpos XH), m')
-                  | None -> None)
-            else (match wr m Z0 (Zpos (XO (XO (XO (XO (XI XH)))))) with
-                  | Some m1 ->
-                    (match wr m1 (Zpos XH) Z0 with
-                     | Some m2 -> Some ((Zpos XH), m2)
-                     | None -> None)
-                  | None -> None)
-       else if Z.eqb v
-                 (Z.opp
-                   (Z.pow (Zpos (XO XH)) (Zpos (XI (XI (XI (XI (XI XH))))))))
-            then let n0 =
-                   Z.min (Z.sub max (Zpos XH)) (Zpos (XO (XO (XI (XO XH)))))
-                 in
-                 (match wr_list m Z0 (firstn (Z.to_nat n0) int64_min_text) with
-                  | Some m1 ->
-                    (match wr m1 n0 Z0 with
-                     | Some m2 -> Some ((Zpos (XO (XO (XI (XO XH))))), m2)
-                     | None -> None)
-                  | None -> None)
-            else if Z.ltb v Z0
-                 then if Z.geb (Zpos XH) max
-                      then (match wr m Z0 Z0 with
-                            | Some m' -> Some ((Zpos XH), m')
-                            | None -> None)
-                      else (match wr m Z0 (Zpos (XI (XO (XI (XI (XO XH)))))) with
-                            | Some m0 ->
-                              itoa_digits (Z.opp v) m0 max (Zpos XH) (Zpos XH)
-                            | None -> None)
-                 else itoa_digits v m max Z0 Z0
-
-(** val cstr : nat -> mem -> z -> z list **)
-
-let rec cstr fuel m i =
-  match fuel with
-  | O -> []
-  | S f ->
-    if inb m i
-    then let c = peek m i in
-         if Z.eqb c Z0 then [] else c :: (cstr f m (Z.add i (Zpos XH)))
-    else []
-
-(** val skip_ws : z list -> z list **)
-
-let rec skip_ws s = match s with
-| [] -> []
-| c :: r ->
-  if (&&) (Z.leb (Zpos XH) c) (Z.leb c (Zpos (XO (XO (XO (XO (XO XH)))))))
-  then skip_ws r
-  else s
-
-(** val atoi_digits : z list -> z -> z **)
-
-let rec atoi_digits s num =
-  match s with
-  | [] -> num
-  | c :: r ->
-    if (||) (Z.ltb c (Zpos (XO (XO (XO (XO (XI XH)))))))
-         (Z.gtb c (Zpos (XI (XO (XO (XI (XI XH)))))))
-    then num
-    else atoi_digits r
-           (sw (Zpos (XO (XO (XO (XO (XO (XO XH)))))))
-             (Z.sub (Z.add (Z.mul num (Zpos (XO (XI (XO XH))))) c) (Zpos (XO
-               (XO (XO (XO (XI XH))))))))
-
-(** val is_inf : z list -> bool **)
-
-let is_inf = function
-| [] -> false
-| z0 :: l ->
-  (match z0 with
-   | Zpos p ->
-     (match p with
-      | XI p0 ->
-        (match p0 with
-         | XO p1 ->
-           (match p1 with
-            | XO p2 ->
-              (match p2 with
-               | XI p3 ->
-                 (match p3 with
-                  | XO p4 ->
-                    (match p4 with
-                     | XI p5 ->
-                       (match p5 with
-                        | XH ->
-                          (match l with
-                           | [] -> false
-                           | z1 :: l0 ->
-                             (match z1 with
-                              | Zpos p6 ->
-                                (match p6 with
-                                 | XO p7 ->
-                                   (match p7 with
-                                    | XI p8 ->
-                                      (match p8 with
-                                       | XI p9 ->
-                                         (match p9 with
-                                          | XI p10 ->
-                                            (match p10 with
-                                             | XO p11 ->
-                                               (match p11 with
-                                                | XI p12 ->
-                                                  (match p12 with
-                                                   | XH ->
-                                                     (match l0 with
-                                                      | [] -> false
-                                                      | z2 :: l1 ->
-                                                        (match z2 with
-                                                         | Zpos p13 ->
-                                                           (match p13 with
-                                                            | XO p14 ->
-                                                              (match p14 with
-                                                               | XI p15 ->
-                                                                 (match p15 with
-                                                                  | XI p16 ->
-                                                                    (match p16 with
-                                                                    | XO p17 ->
-                                                                    (match p17 with
-                                                                    | XO p18 ->
-                                                                    (match p18 with
-                                                                    | XI p19 ->
-                                                                    (match p19 with
-                                                                    | XH ->
-                                                                    (match l1 with
-                                                                    | [] ->
-                                                                    true
-                                                                    | _ :: _ ->
-                                                                    false)
-                                                                    | _ ->
-                                                                    false)
-                                                                    | _ ->
-                                                                    false)
-                                                                    | _ ->
-                                                                    false)
-                                                                    | _ ->
-                                                                    false)
-                                                                  | _ -> false)
-                                                               | _ -> false)
-                                                            | _ -> false)
-                                                         | _ -> false))
-                                                   | _ -> false)
-                                                | _ -> false)
-                                             | _ -> false)
-                                          | _ -> false)
-                                       | _ -> false)
-                                    | _ -> false)
-                                 | _ -> false)
-                              | _ -> false))
-                        | _ -> false)
-                     | _ -> false)
-                  | _ -> false)
-               | _ -> false)
-            | _ -> false)
-         | _ -> false)
-      | _ -> false)
-   | _ -> false)
-
-(** val atoi : z list -> z **)
-
-let atoi s =
-  let s0 = skip_ws s in
-  (match s0 with
-   | [] ->
-     let sign = Zpos XH in
-     if is_inf s0
-     then sw (Zpos (XO (XO (XO (XO (XO (XO XH)))))))
-            (Z.mul
-              (Z.sub
-                (Z.pow (Zpos (XO XH)) (Zpos (XI (XI (XI (XI (XI XH)))))))
-                (Zpos XH)) sign)
-     else sw (Zpos (XO (XO (XO (XO (XO (XO XH)))))))
-            (Z.mul (atoi_digits s0 Z0) sign)
-   | z0 :: r ->
-     (match z0 with
-      | Zpos p ->
-        (match p with
-         | XI p0 ->
-           (match p0 with
-            | XI p1 ->
-              (match p1 with
-               | XO p2 ->
-                 (match p2 with
-                  | XI p3 ->
-                    (match p3 with
-                     | XO p4 ->
-                       (match p4 with
-                        | XH ->
-                          let sign = Zpos XH in
-                          if is_inf r
-                          then sw (Zpos (XO (XO (XO (XO (XO (XO XH)))))))
-                                 (Z.mul
-                                   (Z.sub
-                                     (Z.pow (Zpos (XO XH)) (Zpos (XI (XI (XI
-                                       (XI (XI XH))))))) (Zpos XH)) sign)
-                          else sw (Zpos (XO (XO (XO (XO (XO (XO XH)))))))
-                                 (Z.mul (atoi_digits r Z0) sign)
-                        | _ ->
-                          let sign = Zpos XH in
-                          if is_inf s0
-                          then sw (Zpos (XO (XO (XO (XO (XO (XO XH)))))))
-                                 (Z.mul
-                                   (Z.sub
-                                     (Z.pow (Zpos (XO XH)) (Zpos (XI (XI (XI
-                                       (XI (XI XH))))))) (Zpos XH)) sign)
-                          else sw (Zpos (XO (XO (XO (XO (XO (XO XH)))))))
-                                 (Z.mul (atoi_digits s0 Z0) sign))
-                     | _ ->
-                       let sign = Zpos XH in
-                       if is_inf s0
-                       then sw (Zpos (XO (XO (XO (XO (XO (XO XH)))))))
-                              (Z.mul
-                                (Z.sub
-                                  (Z.pow (Zpos (XO XH)) (Zpos (XI (XI (XI (XI
-                                    (XI XH))))))) (Zpos XH)) sign)
-                       else sw (Zpos (XO (XO (XO (XO (XO (XO XH)))))))
-                              (Z.mul (atoi_digits s0 Z0) sign))
-                  | _ ->
-                    let sign = Zpos XH in
-                    if is_inf s0
-                    then sw (Zpos (XO (XO (XO (XO (XO (XO XH)))))))
-                           (Z.mul
-                             (Z.sub
-                               (Z.pow (Zpos (XO XH)) (Zpos (XI (XI (XI (XI
-                                 (XI XH))))))) (Zpos XH)) sign)
-                    else sw (Zpos (XO (XO (XO (XO (XO (XO XH)))))))
-                           (Z.mul (atoi_digits s0 Z0) sign))
-               | _ ->
-                 let sign = Zpos XH in
-                 if is_inf s0
-                 then sw (Zpos (XO (XO (XO (XO (XO (XO XH)))))))
-                        (Z.mul
-                          (Z.sub
-                            (Z.pow (Zpos (XO XH)) (Zpos (XI (XI (XI (XI (XI
-                              XH))))))) (Zpos XH)) sign)
-                 else sw (Zpos (XO (XO (XO (XO (XO (XO XH)))))))
-                        (Z.mul (atoi_digits s0 Z0) sign))
-            | XO p1 ->
-              (match p1 with
-               | XI p2 ->
-                 (match p2 with
-                  | XI p3 ->
-                    (match p3 with
-                     | XO p4 ->
-                       (match p4 with
-                        | XH ->
-                          let sign = Zneg XH in
-                          if is_inf r
-                          then sw (Zpos (XO (XO (XO (XO (XO (XO XH)))))))
-                                 (Z.mul
-                                   (Z.sub
-                                     (Z.pow (Zpos (XO XH)) (Zpos (XI (XI (XI
-                                       (XI (XI XH))))))) (Zpos XH)) sign)
-                          else sw (Zpos (XO (XO (XO (XO (XO (XO XH)))))))
-                                 (Z.mul (atoi_digits r Z0) sign)
-                        | _ ->
-                          let sign = Zpos XH in
-                          if is_inf s0
-                          then sw (Zpos (XO (XO (XO (XO (XO (XO XH)))))))
-                                 (Z.mul
-                                   (Z.sub
-                                     (Z.pow (Zpos (XO XH)) (Zpos (XI (XI (XI
-                                       (XI (XI XH))))))) (Zpos XH)) sign)
-                          else sw (Zpos (XO (XO (XO (XO (XO (XO XH)))))))
-                                 (Z.mul (atoi_digits s0 Z0) sign))
-                     | _ ->
-                       let sign = Zpos XH in
-                       if is_inf s0
-                       then sw (Zpos (XO (XO (XO (XO (XO (XO XH)))))))
-                              (Z.mul
-                                (Z.sub
-                                  (Z.pow (Zpos (XO XH)) (Zpos (XI (XI (XI (XI
-                                    (XI XH))))))) (Zpos XH)) sign)
-                       else sw (Zpos (XO (XO (XO (XO (XO (XO XH)))))))
-                              (Z.mul (atoi_digits s0 Z0) sign))
-                  | _ ->
-                    let sign = Zpos XH in
-                    if is_inf s0
-                    then sw (Zpos (XO (XO (XO (XO (XO (XO XH)))))))
-                           (Z.mul
-                             (Z.sub
-                               (Z.pow (Zpos (XO XH)) (Zpos (XI (XI (XI (XI
-                                 (XI XH))))))) (Zpos XH)) sign)
-                    else sw (Zpos (XO (XO (XO (XO (XO (XO XH)))))))
-                           (Z.mul (atoi_digits s0 Z0) sign))
-               | _ ->
-                 let sign = Zpos XH in
-                 if is_inf s0
-                 then sw (Zpos (XO (XO (XO (XO (XO (XO XH)))))))
-                        (Z.mul
-                          (Z.sub
-                            (Z.pow (Zpos (XO XH)) (Zpos (XI (XI (XI (XI (XI
-                              XH))))))) (Zpos XH)) sign)
-                 else sw (Zpos (XO (XO (XO (XO (XO (XO XH)))))))
-                        (Z.mul (atoi_digits s0 Z0) sign))
-            | XH ->
-              let sign = Zpos XH in
-              if is_inf s0
-              then sw (Zpos (XO (XO (XO (XO (XO (XO XH)))))))
-                     (Z.mul
-                       (Z.sub
-                         (Z.pow (Zpos (XO XH)) (Zpos (XI (XI (XI (XI (XI
-                           XH))))))) (Zpos XH)) sign)
-              else sw (Zpos (XO (XO (XO (XO (XO (XO XH)))))))
-                     (Z.mul (atoi_digits s0 Z0) sign))
-         | _ ->
-           let sign = Zpos XH in
-           if is_inf s0
-           then sw (Zpos (XO (XO (XO (XO (XO (XO XH)))))))
-                  (Z.mul
-                    (Z.sub
-                      (Z.pow (Zpos (XO XH)) (Zpos (XI (XI (XI (XI (XI
-                        XH))))))) (Zpos XH)) sign)
-           else sw (Zpos (XO (XO (XO (XO (XO (XO XH)))))))
-                  (Z.mul (atoi_digits s0 Z0) sign))
-      | _ ->
-        let sign = Zpos XH in
-        if is_inf s0
-        then sw (Zpos (XO (XO (XO (XO (XO (XO XH)))))))
-               (Z.mul
-                 (Z.sub
-                   (Z.pow (Zpos (XO XH)) (Zpos (XI (XI (XI (XI (XI XH)))))))
-                   (Zpos XH)) sign)
-        else sw (Zpos (XO (XO (XO (XO (XO (XO XH)))))))
-               (Z.mul (atoi_digits s0 Z0) sign)))
-
-(** val hexdigit : z -> z **)
-
-let hexdigit c =
-  uw (Zpos (XO (XO (XO XH))))
-    (Z.add (Z.add (Zpos (XI (XI (XI (XO (XI (XO XH))))))) c)
-      (Z.coq_land
-        (Z.shiftr
-          (uw (Zpos (XO (XO (XO (XO (XO XH))))))
-            (Z.sub c (Zpos (XO (XI (XO XH)))))) (Zpos (XO (XO (XO XH)))))
-        (uw (Zpos (XO (XO (XO (XO (XO XH))))))
-          (Z.lnot (Zpos (XO (XI (XI (XO (XO XH))))))))))
-
-(** val bin2hex : z list -> z list **)
-
-let rec bin2hex = function
-| [] -> []
-| b :: r ->
-  (hexdigit (Z.shiftr b (Zpos (XO (XO XH))))) :: ((hexdigit
-                                                    (Z.coq_land b (Zpos (XI
-                                                      (XI (XI XH)))))) :: 
-    (bin2hex r))
-
-(** val a2h : z -> z **)
-
-let a2h c =
-  nth (Z.to_nat c) ascii2hex_tbl Z0
-
-(** val hex2bin_even : z list -> z list **)
-
-let rec hex2bin_even = function
-| [] -> []
-| a :: l ->
-  (match l with
-   | [] -> []
-   | b :: r ->
-     (uw (Zpos (XO (XO (XO XH))))
-       (Z.coq_lor
-         (uw (Zpos (XO (XO (XO XH)))) (Z.shiftl (a2h a) (Zpos (XO (XO XH)))))
-         (a2h b))) :: (hex2bin_even r))
-
-(** val hex2bin : z list -> z list **)
-
-let hex2bin hex =
-  if Z.odd (Z.of_nat (length hex))
-  then hex2bin_even ((Zpos (XO (XO (XO (XO (XI XH)))))) :: hex)
-  else hex2bin_even hex
+let iWFSM_MAGICK =
+  Zpos (XO (XO (XI (XI (XO (XO (XI (XI (XI (XI (XI (XO (XO (XO (XI (XI (XO
+    (XO (XI (XI (XI (XO (XO (XI XH))))))))))))))))))))))))
 
 type kmode = { km_vnum : bool; km_real : bool; km_compound : bool }
 
@@ -1512,18 +980,6 @@ let read_vnum2 b =
   match read_vnum b with
   | Some p -> let (n0, _) = p in n0
   | None -> Z0
-
-(** val strncmp : nat -> z list -> z list -> z **)
-
-let rec strncmp n0 a b =
-  match n0 with
-  | O -> Z0
-  | S k ->
-    let x = hd Z0 a in
-    let y = hd Z0 b in
-    if Z.eqb x y
-    then if Z.eqb x Z0 then Z0 else strncmp k (tl a) (tl b)
-    else Z.sub x y
 
 (** val memcmp : nat -> z list -> z list -> z **)
 
@@ -1763,42 +1219,820 @@ let cmp_keys tie m v1 kdata kcomp =
        else Z.sub (Z.of_nat (length kdata)) (Z.of_nat (length v1))
   else rv
 
-(** val stored : kmode -> z list -> z -> z list **)
+(** val u8 : (z -> z) -> z -> z **)
 
-let stored m kdata kcomp =
-  if m.km_compound then app (set_vnum64 kcomp) kdata else kdata
+let u8 rd =
+  rd
 
-(** val kcmp :
-    (nat -> z list -> z list -> z) -> kmode -> (z list * z) -> (z list * z)
-    -> z **)
+(** val u16 : (z -> z) -> z -> z **)
 
-let kcmp tie m a b =
-  cmp_keys tie m (stored m (fst a) (snd a)) (fst b) (snd b)
+let u16 rd o =
+  Z.add (rd o)
+    (Z.mul (Zpos (XO (XO (XO (XO (XO (XO (XO (XO XH)))))))))
+      (rd (Z.add o (Zpos XH))))
 
-(** val sblk_cmp_key :
-    (nat -> z list -> z list -> z) -> kmode -> z list -> bool -> z list -> z
-    -> z option **)
+(** val u32 : (z -> z) -> z -> z **)
 
-let sblk_cmp_key tie m lk full kdata kcomp =
-  let ksize =
-    Z.add (Z.of_nat (length kdata))
-      (if m.km_compound then iW_VNUMSIZE kcomp else Z0)
+let u32 rd o =
+  Z.add (rd o)
+    (Z.mul (Zpos (XO (XO (XO (XO (XO (XO (XO (XO XH)))))))))
+      (Z.add (rd (Z.add o (Zpos XH)))
+        (Z.mul (Zpos (XO (XO (XO (XO (XO (XO (XO (XO XH)))))))))
+          (Z.add (rd (Z.add o (Zpos (XO XH))))
+            (Z.mul (Zpos (XO (XO (XO (XO (XO (XO (XO (XO XH)))))))))
+              (rd (Z.add o (Zpos (XI XH)))))))))
+
+(** val u64 : (z -> z) -> z -> z **)
+
+let u64 rd o =
+  Z.add (u32 rd o)
+    (Z.mul (Zpos (XO (XO (XO (XO (XO (XO (XO (XO (XO (XO (XO (XO (XO (XO (XO
+      (XO (XO (XO (XO (XO (XO (XO (XO (XO (XO (XO (XO (XO (XO (XO (XO (XO
+      XH)))))))))))))))))))))))))))))))))
+      (u32 rd (Z.add o (Zpos (XO (XO XH))))))
+
+(** val bytes_at : (z -> z) -> nat -> z -> z list **)
+
+let rec bytes_at rd n0 o =
+  match n0 with
+  | O -> []
+  | S k -> (rd o) :: (bytes_at rd k (Z.add o (Zpos XH)))
+
+(** val bS : z **)
+
+let bS =
+  Z.pow (Zpos (XO XH)) iWKV_FSM_BPOW
+
+(** val addr_of : z -> z **)
+
+let addr_of blk =
+  Z.mul blk bS
+
+(** val vnum_at : (z -> z) -> nat -> z -> z -> z -> z -> (z * z) option **)
+
+let rec vnum_at rd fuel o base acc step =
+  match fuel with
+  | O -> None
+  | S f ->
+    let b = rd o in
+    if Z.ltb b (Zpos (XO (XO (XO (XO (XO (XO (XO XH))))))))
+    then Some ((Z.add acc (Z.mul base b)), (Z.add step (Zpos XH)))
+    else vnum_at rd f (Z.add o (Zpos XH))
+           (Z.mul base (Zpos (XO (XO (XO (XO (XO (XO (XO XH)))))))))
+           (Z.add acc
+             (Z.mul base
+               (Z.sub (Zpos (XI (XI (XI (XI (XI (XI (XI XH)))))))) b)))
+           (Z.add step (Zpos XH))
+
+(** val rdv : (z -> z) -> z -> (z * z) option **)
+
+let rdv rd o =
+  vnum_at rd (S (S (S (S (S (S (S (S (S (S O)))))))))) o (Zpos XH) Z0 Z0
+
+(** val bytes_eq : z list -> z list -> bool **)
+
+let rec bytes_eq a b =
+  match a with
+  | [] -> (match b with
+           | [] -> true
+           | _ :: _ -> false)
+  | x :: a' ->
+    (match b with
+     | [] -> false
+     | y :: b' -> (&&) (Z.eqb x y) (bytes_eq a' b'))
+
+(** val list_eqz : z list -> z list -> bool **)
+
+let list_eqz =
+  bytes_eq
+
+type complaint =
+| CBadMagic of z
+| CBadDb of z
+| CChainLoop of z * z
+| CNodeHeader of z * z
+| CNodeEmpty of z
+| CNodeSlots of z * z
+| CNodeOrder of z
+| CGlobalOrder of z
+| CPrefix of z
+| CBackLink of z
+| CLevelChain of z * z
+| CLevelCount of z * z
+| CKvblk of z * z
+| CSlotOverlap of z
+| CBlocksOverlap of z
+| CLeak of z
+| CUnallocated of z
+| CBeyondFile of z
+
+type sblk = { s_blk : z; s_flags : z; s_lvl : z; s_lkl : z; s_pnum : 
+              z; s_p0 : z; s_kblk : z; s_pi : z list; s_n : z list;
+              s_bpos : z; s_lk : z list }
+
+(** val nSLEV : nat **)
+
+let nSLEV =
+  Z.to_nat sLEVELS
+
+(** val nIDXA : nat **)
+
+let nIDXA =
+  Z.to_nat kVBLK_IDXNUM
+
+(** val u32s : (z -> z) -> nat -> z -> z list **)
+
+let rec u32s rd n0 o =
+  match n0 with
+  | O -> []
+  | S k -> (u32 rd o) :: (u32s rd k (Z.add o (Zpos (XO (XO XH)))))
+
+(** val read_sblk : (z -> z) -> z -> sblk **)
+
+let read_sblk rd blk =
+  let a = addr_of blk in
+  { s_blk = blk; s_flags = (u8 rd (Z.add a sOFF_FLAGS_U1)); s_lvl =
+  (u8 rd (Z.add a sOFF_LVL_U1)); s_lkl = (u8 rd (Z.add a sOFF_LKL_U1));
+  s_pnum = (u8 rd (Z.add a sOFF_PNUM_U1)); s_p0 =
+  (u32 rd (Z.add a sOFF_P0_U4)); s_kblk = (u32 rd (Z.add a sOFF_KBLK_U4));
+  s_pi = (bytes_at rd nIDXA (Z.add a sOFF_PI0_U1)); s_n =
+  (u32s rd nSLEV (Z.add a sOFF_N0_U4)); s_bpos =
+  (u8 rd (Z.add a sOFF_BPOS_U1_V2)); s_lk =
+  (bytes_at rd (Z.to_nat (Z.min (u8 rd (Z.add a sOFF_LKL_U1)) sBLK_LKLEN))
+    (Z.add a sOFF_LK_V2)) }
+
+(** val read_pidx :
+    (z -> z) -> nat -> z -> (z * z) list -> ((z * z) list * z) option **)
+
+let rec read_pidx rd n0 o acc =
+  match n0 with
+  | O -> Some ((rev acc), o)
+  | S k ->
+    (match rdv rd o with
+     | Some p ->
+       let (off, st1) = p in
+       (match rdv rd (Z.add o st1) with
+        | Some p0 ->
+          let (len, st2) = p0 in
+          read_pidx rd k (Z.add (Z.add o st1) st2) ((off, len) :: acc)
+        | None -> None)
+     | None -> None)
+
+type kvb = { k_szpow : z; k_idxsz : z; k_pidx : (z * z) list; k_idxend : z }
+
+(** val read_kvblk : (z -> z) -> z -> kvb option **)
+
+let read_kvblk rd blk =
+  let a = addr_of blk in
+  (match read_pidx rd nIDXA (Z.add a kVBLK_HDRSZ) [] with
+   | Some p0 ->
+     let (p, e) = p0 in
+     Some { k_szpow = (u8 rd a); k_idxsz = (u16 rd (Z.add a (Zpos XH)));
+     k_pidx = p; k_idxend = (Z.sub e a) }
+   | None -> None)
+
+(** val slot_key : (z -> z) -> z -> z -> z -> z -> (z list * z) option **)
+
+let slot_key rd blk szpow off len =
+  let p = Z.sub (Z.add (addr_of blk) (Z.pow (Zpos (XO XH)) szpow)) off in
+  (match rdv rd p with
+   | Some p0 ->
+     let (klen, st) = p0 in
+     if (||) ((||) (Z.ltb klen (Zpos XH)) (Z.gtb (Z.add klen st) len))
+          (Z.gtb klen (Zpos (XO (XO (XO (XO (XI (XI (XI (XO (XI (XO (XO (XO
+            (XI (XO (XO (XO XH))))))))))))))))))
+     then None
+     else Some ((bytes_at rd (Z.to_nat klen) (Z.add p st)), (Z.add klen st))
+   | None -> None)
+
+(** val unstore : kmode -> z list -> z list * z **)
+
+let unstore m s =
+  if m.km_compound
+  then (match read_vnum s with
+        | Some p -> let (c, st) = p in ((skipn st s), c)
+        | None -> (s, Z0))
+  else (s, Z0)
+
+(** val stored_before : kmode -> z list -> z list -> bool **)
+
+let stored_before m a b =
+  let (bd, bc) = unstore m b in Z.ltb (cmp_keys memcmp m a bd bc) Z0
+
+(** val mode_of : z -> kmode **)
+
+let mode_of dbflg =
+  { km_vnum = (negb (Z.eqb (Z.coq_land dbflg iWDB_VNUM64_KEYS) Z0));
+    km_real = (negb (Z.eqb (Z.coq_land dbflg iWDB_REALNUM_KEYS) Z0));
+    km_compound = (negb (Z.eqb (Z.coq_land dbflg iWDB_COMPOUND_KEYS) Z0)) }
+
+(** val nthz : z list -> nat -> z **)
+
+let rec nthz l i =
+  match l with
+  | [] -> Z0
+  | x :: r -> (match i with
+               | O -> x
+               | S k -> nthz r k)
+
+(** val nthp : (z * z) list -> nat -> z * z **)
+
+let rec nthp l i =
+  match l with
+  | [] -> (Z0, Z0)
+  | x :: r -> (match i with
+               | O -> x
+               | S k -> nthp r k)
+
+(** val chain_ok : (z list -> z list -> bool) -> z list list -> bool **)
+
+let rec chain_ok lt = function
+| [] -> true
+| a :: r ->
+  (match r with
+   | [] -> true
+   | b :: _ -> (&&) (lt a b) (chain_ok lt r))
+
+(** val distinct : z list -> bool **)
+
+let rec distinct = function
+| [] -> true
+| x :: r -> (&&) (negb (existsb (Z.eqb x) r)) (distinct r)
+
+(** val ins_range : (z * z) -> (z * z) list -> (z * z) list **)
+
+let rec ins_range x l = match l with
+| [] -> x :: []
+| y :: r -> if Z.leb (fst x) (fst y) then x :: l else y :: (ins_range x r)
+
+(** val sort_ranges : (z * z) list -> (z * z) list **)
+
+let sort_ranges l =
+  fold_right ins_range [] l
+
+(** val ranges_disjoint : (z * z) list -> bool **)
+
+let rec ranges_disjoint = function
+| [] -> true
+| p :: r ->
+  let (s1, n1) = p in
+  (match r with
+   | [] -> true
+   | p0 :: _ ->
+     let (s2, _) = p0 in (&&) (Z.leb (Z.add s1 n1) s2) (ranges_disjoint r))
+
+(** val first_overlap : (z * z) list -> z option **)
+
+let rec first_overlap = function
+| [] -> None
+| p :: r ->
+  let (s1, n1) = p in
+  (match r with
+   | [] -> None
+   | p0 :: _ ->
+     let (s2, _) = p0 in
+     if Z.leb (Z.add s1 n1) s2 then first_overlap r else Some s2)
+
+(** val audit_node :
+    (z -> z) -> kmode -> sblk -> (complaint list * z list list) * (z * z) list **)
+
+let audit_node rd m s =
+  let b = s.s_blk in
+  let hdr =
+    app (if Z.ltb s.s_pnum (Zpos XH) then (CNodeEmpty b) :: [] else [])
+      (app
+        (if Z.gtb s.s_pnum kVBLK_IDXNUM
+         then (CNodeHeader (b, (Zpos XH))) :: []
+         else [])
+        (app
+          (if Z.geb s.s_lvl sLEVELS
+           then (CNodeHeader (b, (Zpos (XO XH)))) :: []
+           else [])
+          (app
+            (if (||) (Z.ltb s.s_bpos (Zpos XH))
+                  (Z.gtb s.s_bpos sBLK_PAGE_SBLK_NUM_V2)
+             then (CNodeHeader (b, (Zpos (XI XH)))) :: []
+             else [])
+            (app
+              (if negb
+                    (Z.eqb (Z.coq_land s.s_flags (Z.lnot sBLK_FULL_LKEY)) Z0)
+               then (CNodeHeader (b, (Zpos (XO (XO XH))))) :: []
+               else [])
+              (if Z.eqb s.s_kblk Z0
+               then (CNodeHeader (b, (Zpos (XI (XO XH))))) :: []
+               else [])))))
   in
-  if (||)
-       ((||)
-         ((||) full
-           ((&&) (negb m.km_compound) (Z.ltb ksize (Z.of_nat (length lk)))))
-         m.km_vnum) m.km_real
-  then Some (cmp_keys tie m lk kdata kcomp)
-  else let r = cmp_keys_prefix tie m lk kdata kcomp in
-       if Z.eqb r Z0 then None else Some r
+  let pn = Z.to_nat (Z.min (Z.max s.s_pnum Z0) kVBLK_IDXNUM) in
+  let pis = firstn pn s.s_pi in
+  (match read_kvblk rd s.s_kblk with
+   | Some kb ->
+     let size = Z.pow (Zpos (XO XH)) kb.k_szpow in
+     let kvc =
+       app
+         (if (||) (Z.ltb kb.k_szpow kVBLK_INISZPOW)
+               (Z.gtb kb.k_szpow (Zpos (XO (XO (XO (XI (XO XH)))))))
+          then (CKvblk (s.s_kblk, (Zpos (XO XH)))) :: []
+          else [])
+         (if negb (Z.eqb kb.k_idxsz (Z.sub kb.k_idxend kVBLK_HDRSZ))
+          then (CKvblk (s.s_kblk, (Zpos (XI XH)))) :: []
+          else [])
+     in
+     let slots = map (fun i -> nthp kb.k_pidx (Z.to_nat i)) pis in
+     let slotc =
+       app
+         (if negb
+               ((&&) (forallb (fun i -> Z.ltb i kVBLK_IDXNUM) pis)
+                 (distinct pis))
+          then (CNodeSlots (b, (Zpos XH))) :: []
+          else [])
+         (app
+           (if negb
+                 (forallb (fun ol ->
+                   (&&) ((&&) (Z.ltb Z0 (snd ol)) (Z.leb (snd ol) (fst ol)))
+                     (Z.leb (fst ol)
+                       (Z.sub (Z.sub size kVBLK_HDRSZ) kb.k_idxsz))) slots)
+            then (CNodeSlots (b, (Zpos (XO XH)))) :: []
+            else [])
+           (app
+             (if negb
+                   (Z.eqb
+                     (Z.of_nat
+                       (length
+                         (filter (fun ol -> negb (Z.eqb (snd ol) Z0))
+                           kb.k_pidx))) (Z.of_nat pn))
+              then (CNodeSlots (b, (Zpos (XI XH)))) :: []
+              else [])
+             (if negb
+                   (ranges_disjoint
+                     (sort_ranges
+                       (map (fun ol -> ((Z.sub (fst ol) (snd ol)), (snd ol)))
+                         slots)))
+              then (CSlotOverlap s.s_kblk) :: []
+              else [])))
+     in
+     let keys =
+       map (fun ol ->
+         match slot_key rd s.s_kblk kb.k_szpow (fst ol) (snd ol) with
+         | Some p -> let (k, _) = p in k
+         | None -> []) slots
+     in
+     let keyc =
+       app
+         (if negb (forallb (fun k -> negb (Nat.eqb (length k) O)) keys)
+          then (CNodeSlots (b, (Zpos (XO (XO XH))))) :: []
+          else [])
+         (app
+           (if negb (chain_ok (stored_before m) keys)
+            then (CNodeOrder b) :: []
+            else [])
+           (match keys with
+            | [] -> []
+            | k0 :: _ ->
+              let want = firstn (Z.to_nat pREFIX_KEY_LEN_V2) k0 in
+              let full = Z.leb (Z.of_nat (length k0)) pREFIX_KEY_LEN_V2 in
+              if negb
+                   ((&&)
+                     ((&&) (bytes_eq s.s_lk want)
+                       (Z.eqb s.s_lkl (Z.of_nat (length want))))
+                     (eqb
+                       (negb (Z.eqb (Z.coq_land s.s_flags sBLK_FULL_LKEY) Z0))
+                       full))
+              then (CPrefix b) :: []
+              else []))
+     in
+     (((app hdr (app kvc (app slotc keyc))), keys), ((s.s_kblk,
+     (Z.div size bS)) :: []))
+   | None -> (((app hdr ((CKvblk (s.s_kblk, (Zpos XH))) :: [])), []), []))
 
-(** val sblk_cmp_key_full :
-    (nat -> z list -> z list -> z) -> kmode -> z list -> z list -> z -> z **)
+(** val walk : (z -> z) -> nat -> nat -> z -> z list -> z list option **)
 
-let sblk_cmp_key_full tie m skey kdata kcomp =
-  let lk = firstn (Z.to_nat pREFIX_KEY_LEN_V2) skey in
-  let full = Z.leb (Z.of_nat (length skey)) pREFIX_KEY_LEN_V2 in
-  (match sblk_cmp_key tie m lk full kdata kcomp with
-   | Some r -> r
-   | None -> cmp_keys tie m skey kdata kcomp)
+let rec walk rd fuel lvl blk acc =
+  match fuel with
+  | O -> None
+  | S f ->
+    if Z.eqb blk Z0
+    then Some (rev acc)
+    else walk rd f lvl (nthz (read_sblk rd blk).s_n lvl) (blk :: acc)
+
+(** val page_of : sblk -> z * z **)
+
+let page_of s =
+  ((Z.sub s.s_blk (Z.mul (Z.sub s.s_bpos (Zpos XH)) (Z.div sBLK_SZ bS))),
+    (Z.div sBLK_PAGE_SZ_V2 bS))
+
+(** val dedup : (z * z) list -> (z * z) list **)
+
+let rec dedup = function
+| [] -> []
+| x :: r ->
+  if existsb (fun y -> Z.eqb (fst y) (fst x)) r
+  then dedup r
+  else x :: (dedup r)
+
+(** val audit_db :
+    (z -> z) -> nat -> z -> (complaint list * (z * z) list) * z **)
+
+let audit_db rd fuel dblk =
+  let a = addr_of dblk in
+  if negb (Z.eqb (u32 rd (Z.add a dOFF_MAGIC_U4)) iWDB_MAGIC)
+  then ((((CBadDb dblk) :: []), []), Z0)
+  else let m = mode_of (u8 rd (Z.add a dOFF_DBFLG_U1)) in
+       let next = u32 rd (Z.add a dOFF_NEXTDB_U4) in
+       let dn = u32s rd nSLEV (Z.add a dOFF_N0_U4) in
+       let dc = u32s rd nSLEV (Z.add a dOFF_C0_U4) in
+       let metab = u32 rd (Z.add a dOFF_METABLK_U4) in
+       let metan = u32 rd (Z.add a dOFF_METABLKN_U4) in
+       (match walk rd fuel O (nthz dn O) [] with
+        | Some l0 ->
+          let nodes = map (read_sblk rd) l0 in
+          let per = map (audit_node rd m) nodes in
+          let comps = concat (map (fun x -> fst (fst x)) per) in
+          let keyss = map (fun x -> snd (fst x)) per in
+          let kvranges = concat (map snd per) in
+          let bounds =
+            concat
+              (map (fun ks ->
+                match ks with
+                | [] -> []
+                | k0 :: _ -> k0 :: ((last ks k0) :: [])) keyss)
+          in
+          let glob =
+            if (&&)
+                 (chain_ok (fun x y ->
+                   (||) (stored_before m x y) (bytes_eq x y)) bounds)
+                 (chain_ok (stored_before m) (concat keyss))
+            then []
+            else (CGlobalOrder dblk) :: []
+          in
+          let prevs = dblk :: l0 in
+          let back =
+            concat
+              (map (fun ps ->
+                if Z.eqb (snd ps).s_p0 (fst ps)
+                then []
+                else (CBackLink (snd ps).s_blk) :: []) (combine prevs nodes))
+          in
+          let tailp = u32 rd (Z.add a dOFF_P0_U4) in
+          let tailc =
+            match l0 with
+            | [] ->
+              if (||) (Z.eqb tailp Z0) (Z.eqb tailp dblk)
+              then []
+              else (CBackLink dblk) :: []
+            | _ :: _ ->
+              if Z.eqb tailp (last l0 Z0) then [] else (CBackLink dblk) :: []
+          in
+          let lvls = seq O nSLEV in
+          let lvlc =
+            concat
+              (map (fun i ->
+                let want =
+                  map (fun s -> s.s_blk)
+                    (filter (fun s -> Z.leb (Z.of_nat i) s.s_lvl) nodes)
+                in
+                let got = walk rd fuel i (nthz dn i) [] in
+                app
+                  (match got with
+                   | Some g ->
+                     if list_eqz g want
+                     then []
+                     else (CLevelChain (dblk, (Z.of_nat i))) :: []
+                   | None -> (CChainLoop (dblk, (Z.of_nat i))) :: [])
+                  (if Z.eqb (nthz dc i)
+                        (Z.of_nat
+                          (length
+                            (filter (fun s -> Z.eqb s.s_lvl (Z.of_nat i))
+                              nodes)))
+                   then []
+                   else (CLevelCount (dblk, (Z.of_nat i))) :: [])) lvls)
+          in
+          let pages = dedup (map page_of nodes) in
+          let occ = (dblk,
+            (Z.div dB_SZ bS)) :: (app
+                                   (if Z.eqb metan Z0
+                                    then []
+                                    else (metab, metan) :: [])
+                                   (app pages kvranges))
+          in
+          (((app comps (app glob (app back (app tailc lvlc)))), occ), next)
+        | None -> ((((CChainLoop (dblk, Z0)) :: []), []), next))
+
+(** val audit_dbs :
+    (z -> z) -> nat -> nat -> z -> complaint list * (z * z) list **)
+
+let rec audit_dbs rd n0 fuel dblk =
+  match n0 with
+  | O -> (((CChainLoop (Z0, Z0)) :: []), [])
+  | S k ->
+    if Z.eqb dblk Z0
+    then ([], [])
+    else let (p, next) = audit_db rd fuel dblk in
+         let (c, occ) = p in
+         let (c2, occ2) = audit_dbs rd k fuel next in
+         ((app c c2), (app occ occ2))
+
+(** val bm_bit : (z -> z) -> z -> z -> bool **)
+
+let bm_bit rd bmoff i =
+  Z.testbit (rd (Z.add bmoff (Z.div i (Zpos (XO (XO (XO XH)))))))
+    (Z.modulo i (Zpos (XO (XO (XO XH)))))
+
+(** val check_free : (z -> z) -> nat -> z -> z -> complaint list **)
+
+let rec check_free rd n0 bmoff from =
+  match n0 with
+  | O -> []
+  | S k ->
+    app (if bm_bit rd bmoff from then (CLeak from) :: [] else [])
+      (check_free rd k bmoff (Z.add from (Zpos XH)))
+
+(** val check_used : (z -> z) -> nat -> z -> z -> complaint list **)
+
+let rec check_used rd n0 bmoff from =
+  match n0 with
+  | O -> []
+  | S k ->
+    app (if bm_bit rd bmoff from then [] else (CUnallocated from) :: [])
+      (check_used rd k bmoff (Z.add from (Zpos XH)))
+
+(** val check_map :
+    (z -> z) -> z -> z -> z -> (z * z) list -> complaint list **)
+
+let rec check_map rd bmoff cur total = function
+| [] -> check_free rd (Z.to_nat (Z.sub total cur)) bmoff cur
+| p :: r ->
+  let (s, n0) = p in
+  app (check_free rd (Z.to_nat (Z.sub s cur)) bmoff cur)
+    (app (check_used rd (Z.to_nat n0) bmoff s)
+      (check_map rd bmoff (Z.add s n0) total r))
+
+(** val hDRLEN : z **)
+
+let hDRLEN =
+  Z.add iWFSM_CUSTOM_HDR_DATA_OFFSET kVHDRSZ
+
+(** val audit : (z -> z) -> z -> complaint list **)
+
+let audit rd fsize =
+  if negb (Z.eqb (u32 rd Z0) iWFSM_MAGICK)
+  then (CBadMagic (Zpos XH)) :: []
+  else if negb (Z.eqb (u32 rd iWFSM_CUSTOM_HDR_DATA_OFFSET) iWKV_MAGIC)
+       then (CBadMagic (Zpos (XO XH))) :: []
+       else if negb (Z.eqb (u8 rd (Zpos (XO (XO XH)))) iWKV_FSM_BPOW)
+            then (CBadMagic (Zpos (XI XH))) :: []
+            else let bmoff = u64 rd (Zpos (XI (XO XH))) in
+                 let bmlen = u64 rd (Zpos (XI (XO (XI XH)))) in
+                 let first =
+                   Z.div
+                     (u64 rd
+                       (Z.add iWFSM_CUSTOM_HDR_DATA_OFFSET (Zpos (XO (XO
+                         XH))))) bS
+                 in
+                 let fuel =
+                   Z.to_nat (Z.add (Z.div fsize sBLK_SZ) (Zpos (XO XH)))
+                 in
+                 let (comps, occ) =
+                   audit_dbs rd (S (S (S (S (S (S (S (S (S (S (S (S (S (S (S
+                     (S (S (S (S (S (S (S (S (S (S (S (S (S (S (S (S (S (S (S
+                     (S (S (S (S (S (S (S (S (S (S (S (S (S (S (S (S (S (S (S
+                     (S (S (S (S (S (S (S (S (S (S (S (S (S (S (S (S (S (S (S
+                     (S (S (S (S (S (S (S (S (S (S (S (S (S (S (S (S (S (S (S
+                     (S (S (S (S (S (S (S (S (S (S (S (S (S (S (S (S (S (S (S
+                     (S (S (S (S (S (S (S (S (S (S (S (S (S (S (S (S (S (S (S
+                     (S (S (S (S (S (S (S (S (S (S (S (S (S (S (S (S (S (S (S
+                     (S (S (S (S (S (S (S (S (S (S (S (S (S (S (S (S (S (S (S
+                     (S (S (S (S (S (S (S (S (S (S (S (S (S (S (S (S (S (S (S
+                     (S (S (S (S (S (S (S (S (S (S (S (S (S (S (S (S (S (S (S
+                     (S (S (S (S (S (S (S (S (S (S (S (S (S (S (S (S (S (S (S
+                     (S (S (S (S (S (S (S (S (S (S (S (S (S (S (S (S (S (S (S
+                     (S (S (S (S (S (S (S (S (S (S (S (S (S (S (S (S (S (S (S
+                     (S (S (S (S (S (S (S (S (S (S (S (S (S (S (S (S (S (S (S
+                     (S (S (S (S (S (S (S (S (S (S (S (S (S (S (S (S (S (S (S
+                     (S (S (S (S (S (S (S (S (S (S (S (S (S (S (S (S (S (S (S
+                     (S (S (S (S (S (S (S (S (S (S (S (S (S (S (S (S (S (S (S
+                     (S (S (S (S (S (S (S (S (S (S (S (S (S (S (S (S (S (S (S
+                     (S (S (S (S (S (S (S (S (S (S (S (S (S (S (S (S (S (S (S
+                     (S (S (S (S (S (S (S (S (S (S (S (S (S (S (S (S (S (S (S
+                     (S (S (S (S (S (S (S (S (S (S (S (S (S (S (S (S (S (S (S
+                     (S (S (S (S (S (S (S (S (S (S (S (S (S (S (S (S (S (S (S
+                     (S (S (S (S (S (S (S (S (S (S (S (S (S (S (S (S (S (S (S
+                     (S (S (S (S (S (S (S (S (S (S (S (S (S (S (S (S (S (S (S
+                     (S (S (S (S (S (S (S (S (S (S (S (S (S (S (S (S (S (S (S
+                     (S (S (S (S (S (S (S (S (S (S (S (S (S (S (S (S (S (S (S
+                     (S (S (S (S (S (S (S (S (S (S (S (S (S (S (S (S (S (S (S
+                     (S (S (S (S (S (S (S (S (S (S (S (S (S (S (S (S (S (S (S
+                     (S (S (S (S (S (S (S (S (S (S (S (S (S (S (S (S (S (S (S
+                     (S (S (S (S (S (S (S (S (S (S (S (S (S (S (S (S (S (S (S
+                     (S (S (S (S (S (S (S (S (S (S (S (S (S (S (S (S (S (S (S
+                     (S (S (S (S (S (S (S (S (S (S (S (S (S (S (S (S (S (S (S
+                     (S (S (S (S (S (S (S (S (S (S (S (S (S (S (S (S (S (S (S
+                     (S (S (S (S (S (S (S (S (S (S (S (S (S (S (S (S (S (S (S
+                     (S (S (S (S (S (S (S (S (S (S (S (S (S (S (S (S (S (S (S
+                     (S (S (S (S (S (S (S (S (S (S (S (S (S (S (S (S (S (S (S
+                     (S (S (S (S (S (S (S (S (S (S (S (S (S (S (S (S (S (S (S
+                     (S (S (S (S (S (S (S (S (S (S (S (S (S (S (S (S (S (S (S
+                     (S (S (S (S (S (S (S (S (S (S (S (S (S (S (S (S (S (S (S
+                     (S (S (S (S (S (S (S (S (S (S (S (S (S (S (S (S (S (S (S
+                     (S (S (S (S (S (S (S (S (S (S (S (S (S (S (S (S (S (S (S
+                     (S (S (S (S (S (S (S (S (S (S (S (S (S (S (S (S (S (S (S
+                     (S (S (S (S (S (S (S (S (S (S (S (S (S (S (S (S (S (S (S
+                     (S (S (S (S (S (S (S (S (S (S (S (S (S (S (S (S (S (S (S
+                     (S (S (S (S (S (S (S (S (S (S (S (S (S (S (S (S (S (S (S
+                     (S (S (S (S (S (S (S (S (S (S (S (S (S (S (S (S (S (S (S
+                     (S (S (S (S (S (S (S (S (S (S (S (S (S (S (S (S (S (S (S
+                     (S (S (S (S (S (S (S (S (S (S (S (S (S (S (S (S (S (S (S
+                     (S (S (S (S (S (S (S (S (S (S (S (S (S (S (S (S (S (S (S
+                     (S (S (S (S (S (S (S (S (S (S (S (S (S (S (S (S (S (S (S
+                     (S (S (S (S (S (S (S (S (S (S (S (S (S (S (S (S (S (S (S
+                     (S (S (S (S (S (S (S (S (S (S (S (S (S (S (S (S (S (S (S
+                     (S (S (S (S (S (S (S (S (S (S (S (S (S (S (S (S (S (S (S
+                     (S (S (S (S (S (S (S (S (S (S (S (S (S (S (S (S (S (S (S
+                     (S (S (S (S (S (S (S (S (S (S (S (S (S (S (S (S (S (S (S
+                     (S (S (S (S (S (S (S (S (S (S (S (S (S (S (S (S (S (S (S
+                     (S (S (S (S (S (S (S (S (S (S (S (S (S (S (S (S (S (S (S
+                     (S (S (S (S (S (S (S (S (S (S (S (S (S (S (S (S (S (S (S
+                     (S (S (S (S (S (S (S (S (S (S (S (S (S (S (S (S (S (S (S
+                     (S (S (S (S (S (S (S (S (S (S (S (S (S (S (S (S (S (S (S
+                     (S (S (S (S (S (S (S (S (S (S (S (S (S (S (S (S (S (S (S
+                     (S (S (S (S (S (S (S (S (S (S (S (S (S (S (S (S (S (S (S
+                     (S (S (S (S (S (S (S (S (S (S (S (S (S (S (S (S (S (S (S
+                     (S (S (S (S (S (S (S (S (S (S (S (S (S (S (S (S (S (S (S
+                     (S (S (S (S (S (S (S (S (S (S (S (S (S (S (S (S (S (S (S
+                     (S (S (S (S (S (S (S (S (S (S (S (S (S (S (S (S (S (S (S
+                     (S (S (S (S (S (S (S (S (S (S (S (S (S (S (S (S (S (S (S
+                     (S (S (S (S (S (S (S (S (S (S (S (S (S (S (S (S (S (S (S
+                     (S (S (S (S (S (S (S (S (S (S (S (S (S (S (S (S (S (S (S
+                     (S (S (S (S (S (S (S (S (S (S (S (S (S (S (S (S (S (S (S
+                     (S (S (S (S (S (S (S (S (S (S (S (S (S (S (S (S (S (S (S
+                     (S (S (S (S (S (S (S (S (S (S (S (S (S (S (S (S (S (S (S
+                     (S (S (S (S (S (S (S (S (S (S (S (S (S (S (S (S (S (S (S
+                     (S (S (S (S (S (S (S (S (S (S (S (S (S (S (S (S (S (S (S
+                     (S (S (S (S (S (S (S (S (S (S (S (S (S (S (S (S (S (S (S
+                     (S (S (S (S (S (S (S (S (S (S (S (S (S (S (S (S (S (S (S
+                     (S (S (S (S (S (S (S (S (S (S (S (S (S (S (S (S (S (S (S
+                     (S (S (S (S (S (S (S (S (S (S (S (S (S (S (S (S (S (S (S
+                     (S (S (S (S (S (S (S (S (S (S (S (S (S (S (S (S (S (S (S
+                     (S (S (S (S (S (S (S (S (S (S (S (S (S (S (S (S (S (S (S
+                     (S (S (S (S (S (S (S (S (S (S (S (S (S (S (S (S (S (S (S
+                     (S (S (S (S (S (S (S (S (S (S (S (S (S (S (S (S (S (S (S
+                     (S (S (S (S (S (S (S (S (S (S (S (S (S (S (S (S (S (S (S
+                     (S (S (S (S (S (S (S (S (S (S (S (S (S (S (S (S (S (S (S
+                     (S (S (S (S (S (S (S (S (S (S (S (S (S (S (S (S (S (S (S
+                     (S (S (S (S (S (S (S (S (S (S (S (S (S (S (S (S (S (S (S
+                     (S (S (S (S (S (S (S (S (S (S (S (S (S (S (S (S (S (S (S
+                     (S (S (S (S (S (S (S (S (S (S (S (S (S (S (S (S (S (S (S
+                     (S (S (S (S (S (S (S (S (S (S (S (S (S (S (S (S (S (S (S
+                     (S (S (S (S (S (S (S (S (S (S (S (S (S (S (S (S (S (S (S
+                     (S (S (S (S (S (S (S (S (S (S (S (S (S (S (S (S (S (S (S
+                     (S (S (S (S (S (S (S (S (S (S (S (S (S (S (S (S (S (S (S
+                     (S (S (S (S (S (S (S (S (S (S (S (S (S (S (S (S (S (S (S
+                     (S (S (S (S (S (S (S (S (S (S (S (S (S (S (S (S (S (S (S
+                     (S (S (S (S (S (S (S (S (S (S (S (S (S (S (S (S (S (S (S
+                     (S (S (S (S (S (S (S (S (S (S (S (S (S (S (S (S (S (S (S
+                     (S (S (S (S (S (S (S (S (S (S (S (S (S (S (S (S (S (S (S
+                     (S (S (S (S (S (S (S (S (S (S (S (S (S (S (S (S (S (S (S
+                     (S (S (S (S (S (S (S (S (S (S (S (S (S (S (S (S (S (S (S
+                     (S (S (S (S (S (S (S (S (S (S (S (S (S (S (S (S (S (S (S
+                     (S (S (S (S (S (S (S (S (S (S (S (S (S (S (S (S (S (S (S
+                     (S (S (S (S (S (S (S (S (S (S (S (S (S (S (S (S (S (S (S
+                     (S (S (S (S (S (S (S (S (S (S (S (S (S (S (S (S (S (S (S
+                     (S (S (S (S (S (S (S (S (S (S (S (S (S (S (S (S (S (S (S
+                     (S (S (S (S (S (S (S (S (S (S (S (S (S (S (S (S (S (S (S
+                     (S (S (S (S (S (S (S (S (S (S (S (S (S (S (S (S (S (S (S
+                     (S (S (S (S (S (S (S (S (S (S (S (S (S (S (S (S (S (S (S
+                     (S (S (S (S (S (S (S (S (S (S (S (S (S (S (S (S (S (S (S
+                     (S (S (S (S (S (S (S (S (S (S (S (S (S (S (S (S (S (S (S
+                     (S (S (S (S (S (S (S (S (S (S (S (S (S (S (S (S (S (S (S
+                     (S (S (S (S (S (S (S (S (S (S (S (S (S (S (S (S (S (S (S
+                     (S (S (S (S (S (S (S (S (S (S (S (S (S (S (S (S (S (S (S
+                     (S (S (S (S (S (S (S (S (S (S (S (S (S (S (S (S (S (S (S
+                     (S (S (S (S (S (S (S (S (S (S (S (S (S (S (S (S (S (S (S
+                     (S (S (S (S (S (S (S (S (S (S (S (S (S (S (S (S (S (S (S
+                     (S (S (S (S (S (S (S (S (S (S (S (S (S (S (S (S (S (S (S
+                     (S (S (S (S (S (S (S (S (S (S (S (S (S (S (S (S (S (S (S
+                     (S (S (S (S (S (S (S (S (S (S (S (S (S (S (S (S (S (S (S
+                     (S (S (S (S (S (S (S (S (S (S (S (S (S (S (S (S (S (S (S
+                     (S (S (S (S (S (S (S (S (S (S (S (S (S (S (S (S (S (S (S
+                     (S (S (S (S (S (S (S (S (S (S (S (S (S (S (S (S (S (S (S
+                     (S (S (S (S (S (S (S (S (S (S (S (S (S (S (S (S (S (S (S
+                     (S (S (S (S (S (S (S (S (S (S (S (S (S (S (S (S (S (S (S
+                     (S (S (S (S (S (S (S (S (S (S (S (S (S (S (S (S (S (S (S
+                     (S (S (S (S (S (S (S (S (S (S (S (S (S (S (S (S (S (S (S
+                     (S (S (S (S (S (S (S (S (S (S (S (S (S (S (S (S (S (S (S
+                     (S (S (S (S (S (S (S (S (S (S (S (S (S (S (S (S (S (S (S
+                     (S (S (S (S (S (S (S (S (S (S (S (S (S (S (S (S (S (S (S
+                     (S (S (S (S (S (S (S (S (S (S (S (S (S (S (S (S (S (S (S
+                     (S (S (S (S (S (S (S (S (S (S (S (S (S (S (S (S (S (S (S
+                     (S (S (S (S (S (S (S (S (S (S (S (S (S (S (S (S (S (S (S
+                     (S (S (S (S (S (S (S (S (S (S (S (S (S (S (S (S (S (S (S
+                     (S (S (S (S (S (S (S (S (S (S (S (S (S (S (S (S (S (S (S
+                     (S (S (S (S (S (S (S (S (S (S (S (S (S (S (S (S (S (S (S
+                     (S (S (S (S (S (S (S (S (S (S (S (S (S (S (S (S (S (S (S
+                     (S (S (S (S (S (S (S (S (S (S (S (S (S (S (S (S (S (S (S
+                     (S (S (S (S (S (S (S (S (S (S (S (S (S (S (S (S (S (S (S
+                     (S (S (S (S (S (S (S (S (S (S (S (S (S (S (S (S (S (S (S
+                     (S (S (S (S (S (S (S (S (S (S (S (S (S (S (S (S (S (S (S
+                     (S (S (S (S (S (S (S (S (S (S (S (S (S (S (S (S (S (S (S
+                     (S (S (S (S (S (S (S (S (S (S (S (S (S (S (S (S (S (S (S
+                     (S (S (S (S (S (S (S (S (S (S (S (S (S (S (S (S (S (S (S
+                     (S (S (S (S (S (S (S (S (S (S (S (S (S (S (S (S (S (S (S
+                     (S (S (S (S (S (S (S (S (S (S (S (S (S (S (S (S (S (S (S
+                     (S (S (S (S (S (S (S (S (S (S (S (S (S (S (S (S (S (S (S
+                     (S (S (S (S (S (S (S (S (S (S (S (S (S (S (S (S (S (S (S
+                     (S (S (S (S (S (S (S (S (S (S (S (S (S (S (S (S (S (S (S
+                     (S (S (S (S (S (S (S (S (S (S (S (S (S (S (S (S (S (S (S
+                     (S (S (S (S (S (S (S (S (S (S (S (S (S (S (S (S (S (S (S
+                     (S (S (S (S (S (S (S (S (S (S (S (S (S (S (S (S (S (S (S
+                     (S (S (S (S (S (S (S (S (S (S (S (S (S (S (S (S (S (S (S
+                     (S (S (S (S (S (S (S (S (S (S (S (S (S (S (S (S (S (S (S
+                     (S (S (S (S (S (S (S (S (S (S (S (S (S (S (S (S (S (S (S
+                     (S (S (S (S (S (S (S (S (S (S (S (S (S (S (S (S (S (S (S
+                     (S (S (S (S (S (S (S (S (S (S (S (S (S (S (S (S (S (S (S
+                     (S (S (S (S (S (S (S (S (S (S (S (S (S (S (S (S (S (S (S
+                     (S (S (S (S (S (S (S (S (S (S (S (S (S (S (S (S (S (S (S
+                     (S (S (S (S (S (S (S (S (S (S (S (S (S (S (S (S (S (S (S
+                     (S (S (S (S (S (S (S (S (S (S (S (S (S (S (S (S (S (S (S
+                     (S (S (S (S (S (S (S (S (S (S (S (S (S (S (S (S (S (S (S
+                     (S (S (S (S (S (S (S (S (S (S (S (S (S (S (S (S (S (S (S
+                     (S (S (S (S (S (S (S (S (S (S (S (S (S (S (S (S (S (S (S
+                     (S (S (S (S (S (S (S (S (S (S (S (S (S (S (S (S (S (S (S
+                     (S (S (S (S (S (S (S (S (S (S (S (S (S (S (S (S (S (S (S
+                     (S (S (S (S (S (S (S (S (S (S (S (S (S (S (S (S (S (S (S
+                     (S (S (S (S (S (S (S (S (S (S (S (S (S (S (S (S (S (S (S
+                     (S (S (S (S (S (S (S (S (S (S (S (S (S (S (S (S (S (S (S
+                     (S (S (S (S (S (S (S (S (S (S (S (S (S (S (S (S (S (S (S
+                     (S (S (S (S (S (S (S (S (S (S (S (S (S (S (S (S (S (S (S
+                     (S (S (S (S (S (S (S (S (S (S (S (S (S (S (S (S (S (S (S
+                     (S (S (S (S (S (S (S (S (S (S (S (S (S (S (S (S (S (S (S
+                     (S (S (S (S (S (S (S (S (S (S (S (S (S (S (S (S (S (S (S
+                     (S (S (S (S (S (S (S (S (S (S (S (S (S (S (S (S (S (S (S
+                     (S (S (S (S (S (S (S (S (S (S (S (S (S (S (S (S (S (S (S
+                     (S (S (S (S (S (S (S (S (S (S (S (S (S (S (S (S (S (S (S
+                     (S (S (S (S (S (S (S (S (S (S (S (S (S (S (S (S (S (S (S
+                     (S (S (S (S (S (S (S (S (S (S (S (S (S (S (S (S (S (S (S
+                     (S (S (S (S (S (S (S (S (S (S (S (S (S (S (S (S (S (S (S
+                     (S (S (S (S (S (S (S (S (S (S (S (S (S (S (S (S (S (S (S
+                     (S (S (S (S (S (S (S (S (S (S (S (S (S (S (S (S (S (S (S
+                     (S (S (S (S (S (S (S (S (S (S (S (S (S (S (S (S (S (S (S
+                     (S (S (S (S (S (S (S (S (S (S (S (S (S (S (S (S (S (S (S
+                     (S (S (S (S (S (S (S (S (S (S (S (S (S (S (S (S (S (S (S
+                     (S (S (S (S (S (S (S (S (S (S (S (S (S (S (S (S (S (S (S
+                     (S (S (S (S (S (S (S (S (S (S (S (S (S (S (S (S (S (S (S
+                     (S (S (S (S (S (S (S (S (S (S (S (S (S (S (S (S (S (S (S
+                     (S (S (S (S (S (S (S (S (S (S (S (S (S (S (S (S (S (S (S
+                     (S (S (S (S (S (S (S (S (S (S (S (S (S (S (S (S (S (S (S
+                     (S (S (S (S (S (S (S (S (S (S (S (S (S (S (S (S (S (S (S
+                     (S (S (S (S (S (S (S (S (S (S (S (S (S (S (S (S (S (S (S
+                     (S (S (S (S (S (S (S (S (S (S (S (S (S (S (S (S (S (S (S
+                     (S (S (S (S (S (S (S (S (S (S (S (S (S (S (S (S (S (S (S
+                     (S (S (S (S (S (S (S (S (S (S (S (S (S (S (S (S (S (S (S
+                     (S (S (S (S (S (S (S (S (S (S (S (S (S (S (S (S (S (S (S
+                     (S (S (S (S (S (S (S (S (S (S (S (S (S (S (S (S (S (S (S
+                     (S (S (S (S (S (S (S (S (S (S (S (S (S (S (S (S (S (S (S
+                     (S (S (S (S (S (S (S (S (S (S (S (S (S (S (S (S (S (S (S
+                     (S (S (S (S (S (S (S (S (S (S (S (S (S (S (S (S (S (S (S
+                     (S (S (S (S (S (S (S (S (S (S (S (S (S (S (S (S (S (S (S
+                     (S (S (S (S (S (S (S (S (S (S (S (S (S (S (S (S (S (S (S
+                     (S (S (S (S (S (S (S (S (S (S (S (S (S (S (S (S (S (S (S
+                     (S (S (S (S (S (S (S (S (S (S (S (S (S (S (S (S (S (S (S
+                     (S (S (S (S (S (S (S (S (S (S (S (S (S (S (S (S (S (S (S
+                     (S (S (S (S (S (S (S (S (S (S (S (S (S (S (S (S (S (S (S
+                     (S (S (S (S (S (S (S (S (S (S (S (S (S (S (S (S (S (S (S
+                     (S (S (S (S (S (S (S (S (S (S (S (S (S (S (S (S (S (S (S
+                     (S (S (S (S (S (S (S (S (S (S (S (S (S (S (S (S (S (S (S
+                     (S (S (S (S (S (S (S (S (S (S (S (S (S (S (S (S (S (S (S
+                     (S (S (S (S (S (S (S (S (S (S (S (S (S (S (S (S (S (S (S
+                     (S (S (S (S (S (S (S (S (S (S (S (S (S (S (S (S (S (S (S
+                     (S (S (S (S (S (S (S (S (S (S (S (S (S (S (S (S (S (S (S
+                     (S (S (S (S (S (S (S (S (S (S (S (S (S (S (S (S (S (S (S
+                     (S (S (S (S (S (S (S (S (S (S (S (S (S (S (S (S (S (S (S
+                     (S (S (S (S (S (S (S (S (S (S (S (S (S (S (S (S (S (S (S
+                     (S (S (S (S (S (S (S (S (S (S (S (S (S (S (S
+                     O))))))))))))))))))))))))))))))))))))))))))))))))))))))))))))))))))))))))))))))))))))))))))))))))))))))))))))))))))))))))))))))))))))))))))))))))))))))))))))))))))))))))))))))))))))))))))))))))))))))))))))))))))))))))))))))))))))))))))))))))))))))))))))))))))))))))))))))))))))))))))))))))))))))))))))))))))))))))))))))))))))))))))))))))))))))))))))))))))))))))))))))))))))))))))))))))))))))))))))))))))))))))))))))))))))))))))))))))))))))))))))))))))))))))))))))))))))))))))))))))))))))))))))))))))))))))))))))))))))))))))))))))))))))))))))))))))))))))))))))))))))))))))))))))))))))))))))))))))))))))))))))))))))))))))))))))))))))))))))))))))))))))))))))))))))))))))))))))))))))))))))))))))))))))))))))))))))))))))))))))))))))))))))))))))))))))))))))))))))))))))))))))))))))))))))))))))))))))))))))))))))))))))))))))))))))))))))))))))))))))))))))))))))))))))))))))))))))))))))))))))))))))))))))))))))))))))))))))))))))))))))))))))))))))))))))))))))))))))))))))))))))))))))))))))))))))))))))))))))))))))))))))))))))))))))))))))))))))))))))))))))))))))))))))))))))))))))))))))))))))))))))))))))))))))))))))))))))))))))))))))))))))))))))))))))))))))))))))))))))))))))))))))))))))))))))))))))))))))))))))))))))))))))))))))))))))))))))))))))))))))))))))))))))))))))))))))))))))))))))))))))))))))))))))))))))))))))))))))))))))))))))))))))))))))))))))))))))))))))))))))))))))))))))))))))))))))))))))))))))))))))))))))))))))))))))))))))))))))))))))))))))))))))))))))))))))))))))))))))))))))))))))))))))))))))))))))))))))))))))))))))))))))))))))))))))))))))))))))))))))))))))))))))))))))))))))))))))))))))))))))))))))))))))))))))))))))))))))))))))))))))))))))))))))))))))))))))))))))))))))))))))))))))))))))))))))))))))))))))))))))))))))))))))))))))))))))))))))))))))))))))))))))))))))))))))))))))))))))))))))))))))))))))))))))))))))))))))))))))))))))))))))))))))))))))))))))))))))))))))))))))))))))))))))))))))))))))))))))))))))))))))))))))))))))))))))))))))))))))))))))))))))))))))))))))))))))))))))))))))))))))))))))))))))))))))))))))))))))))))))))))))))))))))))))))))))))))))))))))))))))))))))))))))))))))))))))))))))))))))))))))))))))))))))))))))))))))))))))))))))))))))))))))))))))))))))))))))))))))))))))))))))))))))))))))))))))))))))))))))))))))))))))))))))))))))))))))))))))))))))))))))))))))))))))))))))))))))))))))))))))))))))))))))))))))))))))))))))))))))))))))))))))))))))))))))))))))))))))))))))))))))))))))))))))))))))))))))))))))))))))))))))))))))))))))))))))))))))))))))))))))))))))))))))))))))))))))))))))))))))))))))))))))))))))))))))))))))))))))))))))))))))))))))))))))))))))))))))))))))))))))))))))))))))))))))))))))))))))))))))))))))))))))))))))))))))))))))))))))))))))))))))))))))))))))))))))))))))))))))))))))))))))))))))))))))))))))))))))))))))))))))))))))))))))))))))))))))))))))))))))))))))))))))))))))))))))))))))))))))))))))))))))))))))))))))))))))))))))))))))))))))))))))))))))))))))))))))))))))))))))))))))))))))))))))))))))))))))))))))))))))))))))))))))))))))))))))))))))))))))))))))))))))))))))))))))))))))))))))))))))))))))))))))))))))))))))))))))))))))))))))))))))))))))))))))))))))))))))))))))))))))))))))))))))))))))))))))))))))))))))))))))))))))))))))))))))))))))))))))))))))))))))))))))))))))))))))))))))))))))))))))))))))))))))))))))))))))))))))))))))))))))))))))))))))))))))))))))))))))))))))))))))))))))))))))))))))))))))))))))))))))))))))))))))))))))))))))))))))))))))))))))))))))))))))))))))))))))))))))))))))))))))))))))))))))))))))))))))))))))))))))))))))))))))))))))))))))))))))))))))))))))))))))))))))))))))))))))))))))))))))))))))))))))))))))))))))))))))))))))))))))))))))))))))))))))))))))))))))))))))))))))))))))))))))))))))))))))))))))))))))))))))))))))))))))))))))))))))))))))))))))))))))))))))))))))))))))))))))))))))))))))))))))))))))))))))))))))))))))))))))))))))))))))))))))))))))))))))))))))))))))))))))))))))))))))))))))))))))))))))))))))))))))))))))))))))))))))))))))))))))))))))))))))))))))))))))))))))))))))))))))))))))))))))))))))))))))))))))))))))))))))))))))))))))))))))))))))))))))))))))))))))))))))))))))))))))))))))))))))))))))))))))))))
+                     fuel first
+                 in
+                 let hdrblocks = Z.div (Z.sub (Z.add hDRLEN bS) (Zpos XH)) bS
+                 in
+                 let all =
+                   sort_ranges ((Z0, hdrblocks) :: (((Z.div bmoff bS),
+                     (Z.div bmlen bS)) :: occ))
+                 in
+                 let total =
+                   Z.min (Z.mul bmlen (Zpos (XO (XO (XO XH)))))
+                     (Z.div fsize bS)
+                 in
+                 app comps
+                   (app
+                     (match first_overlap all with
+                      | Some b -> (CBlocksOverlap b) :: []
+                      | None -> [])
+                     (app
+                       (if forallb (fun r ->
+                             Z.leb (Z.mul (Z.add (fst r) (snd r)) bS) fsize)
+                             all
+                        then []
+                        else (CBeyondFile Z0) :: [])
+                       (if ranges_disjoint all
+                        then firstn (S (S (S (S (S (S (S (S O))))))))
+                               (check_map rd bmoff Z0 total all)
+                        else [])))
